@@ -6,7 +6,8 @@ import ast
 from ..core import Ctx
 from ..match import (Fact, _atoms_with_polarity, arg, call_name, calls, expr_context_facts, fact_of, facts_at, is_param,
                      local_defs, resolve, single_def, stores)
-from ..model import AnalysisError, ancestors, chain, const_value, enclosing_stmt, strip_cast, walk_no_nested
+from ..model import (NOCONST, AnalysisError, ancestors, chain, const_value, enclosing_function, enclosing_stmt, parent, strip_cast,
+                     walk_no_nested)
 
 LEVEL = "other"
 EXPLANATION = (
@@ -15,15 +16,24 @@ EXPLANATION = (
     "over an edge on which the anonymity switch of packet[:22] is off (settings.get(prefix, False) falsy, prefix not "
     "in settings, settings[prefix] falsy); tunnel sends only with the switch on and over a circuit that was drawn from "
     "find_circuits(exit_flags=[PEER_FLAG_EXIT_IPV8], hops=self.hops) and tested READY after its last definition; "
-    "otherwise queue (bounded deque) or drop. All acyclic paths are enumerated and classified. Closed caller sets: raw "
-    "endpoint.send inside TunnelEndpoint, no `.endpoint.endpoint` reach-under, set_anonymity writers, opt-in in "
-    "Community.__init__, delivery filter; Circuit.exit_flags reads the flags of the last hop."
+    "otherwise queue (bounded deque) or drop. All acyclic paths are enumerated and classified. When send (or the "
+    "constructor opt-in, set_anonymity, the delivery filter, Circuit.exit_flags) is not in the reviewed shape, the same "
+    "conditions are decided by symbolic execution of every path through the function, its private helpers, closures, "
+    "generators and dispatch tables (values and tested facts per path; no statement positions). Closed caller sets: raw "
+    "endpoint.send inside TunnelEndpoint (or in helpers only send reaches), no `.endpoint.endpoint` / "
+    "getattr(endpoint, 'endpoint') reach-under, set_anonymity writers, opt-in in Community.__init__, delivery filter; "
+    "Circuit.exit_flags reads the flags of the last hop; find_circuits admits a circuit only if exit_flags is None or "
+    "set(exit_flags) <= set(c.exit_flags), and hops is None or hops == c.goal_hops."
 )
 
 EP = "ipv8/messaging/anonymization/endpoint.py"
 TUNNEL = "ipv8/messaging/anonymization/tunnel.py"
 
 ON, OFF = "on", "off"
+
+import os as _os
+
+_FORCE_PATHS = bool(_os.environ.get("C07_FORCE_PATHS"))     # testing aid: decide by symbolic paths even where the reviewed shape is recognised
 
 # calls that neither send nor store anything
 _PURE = {"bool", "len", "isinstance", "next", "iter", "list", "tuple", "set", "getattr", "hasattr", "cast", "reversed", "sorted",
@@ -394,8 +404,2122 @@ def _effects(te, hf, seen: frozenset) -> set:
     return out
 
 
+# ------------------------------------------------------------------------------------ symbolic path interpreter
+# When the reviewed shape of a function is not recognised (decisions moved into helpers that cannot be inlined, flags and
+# tuples carrying a decision, closures, dispatch tables, fused loops) the rules fall back to executing the function
+# symbolically on every path of its CFG: locals hold symbolic values, every branch taken records the truth value of the
+# tested value, calls of private helpers / local closures / generators are followed with their parameters bound to the
+# caller's values, and each effect (raw send, tunnel send, queue, table write ...) is judged against the values and the
+# tests of the path it lies on.  A verdict needs no particular statement order, nesting or spelling; what cannot be
+# evaluated raises _Und (reported as "undecided", never as a verdict).
+class _Und(Exception):
+    """the symbolic interpreter cannot decide this shape"""
+
+
+_SELF = ("param", "self")
+_NONE = ("const", None)
+_STAR = ("*unknown*",)          # an argument list of unknown length (`f(*xs)` with xs not a literal)
+_CMP = {ast.Eq: "eq", ast.NotEq: "ne", ast.Is: "is", ast.IsNot: "isnot", ast.In: "in", ast.NotIn: "notin",
+        ast.Lt: "lt", ast.LtE: "le", ast.Gt: "gt", ast.GtE: "ge"}
+_PURE_BUILTINS = {"len", "isinstance", "issubclass", "hasattr", "callable", "id", "repr", "str", "bytes", "int", "float", "set",
+                  "frozenset", "dict", "min", "max", "sum", "abs", "any", "all", "zip", "enumerate", "range", "type", "hash",
+                  "divmod", "ord", "chr", "hexlify", "unhexlify", "format", "round", "bytearray", "memoryview", "slice", "map",
+                  "filter", "print"}
+_NEVER_NONE = {"len", "isinstance", "issubclass", "hasattr", "callable", "id", "repr", "str", "bytes", "int", "float", "set", "frozenset", "dict",
+               "sum", "abs", "any", "all", "zip", "enumerate", "range", "type", "hash", "divmod", "ord", "chr", "hexlify", "unhexlify", "format",
+               "round", "bytearray", "memoryview", "slice", "map", "filter", "list", "tuple", "sorted", "reversed", "deque", "bool"}
+_SAME_ELEMENTS = {"list", "tuple", "sorted", "reversed", "iter", "deque"}
+_PURE_METHODS = {"get", "keys", "values", "items", "copy", "startswith", "endswith", "index", "count", "join", "split", "format",
+                 "encode", "decode", "hex", "lower", "upper", "strip", "issubset", "issuperset", "union", "intersection",
+                 "difference", "isdisjoint", "done", "result", "to_bytes", "from_bytes"}
+
+
+def _strip(v):
+    """the value without heap epochs (two reads of the same field are the same field)"""
+    if type(v) is tuple and v:
+        if v[0] == "const":
+            return v
+        if v[0] == "attr":
+            return ("attr", _strip(v[1]), v[2])
+        if v[0] == "pcall":
+            return ("pcall", _strip(v[1]), _strip(v[2]))
+        return tuple(_strip(x) for x in v)
+    return v
+
+
+def _vrepr(v) -> str:
+    """a cheap total order key for values (repr of the model objects inside them would print the whole repository)"""
+    if type(v) is tuple:
+        return "(" + ",".join(_vrepr(x) for x in v) + ")"
+    if v is None or isinstance(v, (str, bytes, int, float, bool)):
+        return repr(v)
+    return f"<{type(v).__name__}@{id(v)}>"
+
+
+def _vchain(v) -> str | None:
+    """dotted name of a stripped value made of parameters / globals / attribute reads"""
+    if type(v) is not tuple or not v:
+        return None
+    if v[0] in ("param", "global"):
+        return v[1]
+    if v[0] == "attr":
+        b = _vchain(v[1])
+        return None if b is None else b + "." + v[2]
+    return None
+
+
+def _local_container(v) -> bool:
+    """a list / dict / set / deque that was built by the code being executed"""
+    return v[0] in ("list", "dict", "set", "local", "comp") or \
+        (v[0] == "pcall" and v[1] in (("global", "list"), ("global", "dict"), ("global", "set"), ("global", "deque"), ("global", "bytearray")))
+
+
+class _Frame:
+    __slots__ = ("fi", "env", "visits", "iters", "collect", "captured")
+
+    def __init__(self, fi, env=None, collect=None, captured=None) -> None:
+        self.fi = fi
+        self.env = {} if env is None else env
+        self.visits = {}
+        self.iters = {}
+        self.collect = collect
+        self.captured = captured        # names of the defining scopes as they were when this closure was made (used once those scopes returned)
+
+    def copy(self):
+        f = _Frame(self.fi, dict(self.env), self.collect, self.captured)
+        f.visits = dict(self.visits)
+        f.iters = dict(self.iters)
+        return f
+
+
+class _St:
+    __slots__ = ("frames", "heap", "facts", "events", "effects", "epoch", "qver", "ret")
+
+    def __init__(self) -> None:
+        self.frames = []
+        self.heap = {}
+        self.facts = {}
+        self.events = []
+        self.effects = []
+        self.epoch = 0
+        self.qver = 0
+        self.ret = _NONE
+
+    def fork(self):
+        n = _St()
+        n.frames = [f.copy() for f in self.frames]
+        n.heap = dict(self.heap)
+        n.facts = dict(self.facts)
+        n.events = list(self.events)
+        n.effects = list(self.effects)
+        n.epoch = self.epoch
+        n.qver = self.qver
+        n.ret = self.ret
+        return n
+
+
+class _Event:
+    __slots__ = ("kind", "node", "fi", "ok", "why", "facts")
+
+    def __init__(self, kind, node, fi, ok, why="", facts=()) -> None:
+        self.kind, self.node, self.fi, self.ok, self.why, self.facts = kind, node, fi, ok, why, facts
+
+
+def _stored_names(nodes) -> set[str]:
+    out = set()
+    for n in nodes:
+        for x in walk_no_nested(n):
+            if isinstance(x, ast.Name) and isinstance(x.ctx, (ast.Store, ast.Del)):
+                out.add(x.id)
+            elif isinstance(x, (ast.FunctionDef, ast.AsyncFunctionDef, ast.ClassDef)) and x is not n:
+                out.add(x.name)
+    return out
+
+
+def _is_generator(fnode) -> bool:
+    if isinstance(fnode, ast.Lambda):
+        return False
+    return any(isinstance(x, (ast.Yield, ast.YieldFrom)) for st in fnode.body for x in walk_no_nested(st)
+               if not isinstance(x, (ast.FunctionDef, ast.AsyncFunctionDef, ast.Lambda)))
+
+
+class _Interp:
+    """Symbolic execution of one function (and of what it calls, as far as `follow` says) on all CFG paths."""
+
+    MAX_STEPS = 60000
+    MAX_DEPTH = 8
+
+    def __init__(self, ctx, top) -> None:
+        self.ctx = ctx
+        self.repo = ctx.repo
+        self.top = top
+        self.cls = top.cls
+        self._n = 0
+        self.steps = 0
+        self.gens = {}
+        self._raised = []
+        self._locals = {}
+        self._iterates = {}
+        self._globals = {}
+        self.cenv = {}
+        self._gen_ends = []
+        self.all_events = []
+        self.entered = {id(top.node)}       # functions whose bodies were executed
+
+    # ---------------------------------------------------------------- hooks for the client
+    def follow(self, fi) -> bool:           # may the body of this callee be executed?
+        return True
+
+    def on_call(self, c, fv, args, kwargs, st):     # -> list[(value, state)] | None
+        return None
+
+    def on_unknown_call(self, c, fv, args, kwargs, st):
+        st.epoch += 1
+        st.qver += 1
+        st.heap.clear()
+        return [(("call", self.uid(), _strip(fv), tuple(args), tuple(sorted(kwargs.items(), key=lambda kv: kv[0])) if kwargs is not None else None), st)]
+
+    def on_opaque_call(self, c, st) -> None:        # a call inside an expression that is not evaluated (f-string, nested comprehension)
+        return None
+
+    def on_include(self, comp, value, st) -> None:  # an element is put into a comprehension result
+        return None
+
+    def read_field(self, base, name, st):           # special fields; None = ordinary
+        return None
+
+    # ---------------------------------------------------------------- basics
+    def uid(self) -> int:
+        self._n += 1
+        return self._n
+
+    def unknown(self):
+        return ("unknown", self.uid())
+
+    def closure(self, node, st):
+        fr = st.frames[-1]
+        k = self.uid()
+        self.cenv[k] = {**(fr.captured or {}), **fr.env}
+        return ("closure", node, k)
+
+    def event(self, st, kind, node, ok, why="") -> None:
+        e = _Event(kind, node, st.frames[-1].fi, bool(ok), "" if ok else why, tuple(st.facts.items()))
+        st.events.append(e)
+        st.effects.append(kind)
+        self.all_events.append(e)
+
+    def locals_of(self, fnode) -> set[str]:
+        k = id(fnode)
+        if k not in self._locals:
+            if isinstance(fnode, ast.Lambda):
+                names = set()
+            else:
+                names = _stored_names(fnode.body)
+            a = fnode.args
+            names.update(x.arg for x in a.posonlyargs + a.args + a.kwonlyargs)
+            if a.vararg:
+                names.add(a.vararg.arg)
+            if a.kwarg:
+                names.add(a.kwarg.arg)
+            self._locals[k] = names
+        return self._locals[k]
+
+    def lookup(self, name: str, st):
+        fr = st.frames[-1]
+        if name in fr.env:
+            return fr.env[name]
+        if name in self.locals_of(fr.fi.node):
+            return self.unknown()           # local that is not bound on this path
+        fn = fr.fi.node
+        while True:
+            enc = enclosing_function(fn)
+            if enc is None:
+                break
+            for f2 in reversed(st.frames[:-1]):
+                if f2.fi.node is enc:
+                    if name in f2.env:
+                        return f2.env[name]
+                    break
+            if fr.captured is not None and name in fr.captured:
+                return fr.captured[name]
+            if name in self.locals_of(enc):
+                return self.unknown()
+            fn = enc
+        lit = self.global_literal(fr.fi.module, name)
+        return lit if lit is not None else ("global", name)
+
+    def global_literal(self, module, name: str):
+        """the value of a module-level name that is defined (in this very module) as a literal tuple / list / set of names and constants"""
+        key = (id(module), name)
+        if key not in self._globals:
+            val = None
+            expr = getattr(module, "constants", {}).get(name)
+            if isinstance(expr, (ast.Tuple, ast.List, ast.Set)):
+                elts = []
+                for x in expr.elts:
+                    if isinstance(x, ast.Constant):
+                        elts.append(("const", x.value))
+                    elif isinstance(x, ast.Name):
+                        elts.append(("global", x.id))
+                    elif isinstance(x, ast.Attribute) and isinstance(x.value, ast.Name):
+                        elts.append(("attr", ("global", x.value.id), x.attr))
+                    else:
+                        elts = None
+                        break
+                if elts is not None:
+                    val = ({ast.Tuple: "tuple", ast.List: "list", ast.Set: "set"}[type(expr)], tuple(elts))
+            self._globals[key] = val
+        return self._globals[key]
+
+    # ---------------------------------------------------------------- truth
+    def norm(self, v, pol: bool):
+        while True:
+            if v[0] == "not":
+                v, pol = v[1], not pol
+            elif v[0] == "truth":
+                v = v[1]
+            elif v[0] == "cmp":
+                op, l, r = v[1], v[2], v[3]
+                if op == "ne":
+                    op, pol = "eq", not pol
+                elif op == "isnot":
+                    op, pol = "is", not pol
+                elif op == "notin":
+                    op, pol = "in", not pol
+                elif op == "ge":
+                    op, pol = "lt", not pol
+                elif op == "gt":
+                    op, l, r = "lt", r, l
+                elif op == "le":
+                    op, l, r, pol = "lt", r, l, not pol
+                if op in ("eq", "is") and _vrepr(l) > _vrepr(r):
+                    l, r = r, l
+                return ("cmp", op, l, r), pol
+            else:
+                return v, pol
+
+    def _distinct_consts(self, a, b, st):
+        """True when a and b are two different named constants (enum members / module constants)"""
+        a, b = _strip(a), _strip(b)
+        if a[0] == "attr" and b[0] == "attr" and a[1] == b[1] and a[1][0] == "global" and a[2] != b[2]:
+            ci = self.repo.resolve_name(st.frames[-1].fi.module, a[1][1])
+            if hasattr(ci, "all_base_names") and ci.all_base_names() & {"Enum", "IntEnum", "StrEnum", "Flag", "IntFlag"}:
+                return a[2] in ci.attrs and b[2] in ci.attrs
+        return False
+
+    def base_truth(self, k, st):
+        tag = k[0]
+        if tag == "const":
+            return bool(k[1])
+        if tag in ("tuple", "list", "set"):
+            return len(k[1]) > 0
+        if tag == "dict":
+            return len(k[1]) > 0
+        if tag in ("closure", "func", "gen", "bound"):
+            return True
+        if tag == "record" and k[2]:
+            return True
+        if tag == "cmp":
+            op, l, r = k[1], k[2], k[3]
+            if l[0] == "const" and r[0] == "const":
+                try:
+                    if op == "eq":
+                        return l[1] == r[1]
+                    if op == "is":
+                        return l[1] is r[1] or (l[1] == r[1] and type(l[1]) is type(r[1]))
+                    if op == "lt":
+                        return l[1] < r[1]
+                    if op == "in":
+                        return l[1] in r[1]
+                except TypeError:
+                    return None
+            if op in ("eq", "is"):
+                if l == r and l[0] not in ("unknown",):
+                    return True
+                for a, b in ((l, r), (r, l)):
+                    if a == _NONE and b[0] in ("tuple", "list", "set", "dict", "closure", "func", "gen", "bound", "qitem", "truth", "cmp", "not",
+                                               "local", "comp", "filtered", "iter", "reversed", "slice", "binop", "record"):
+                        return False
+                    if a == _NONE and b[0] == "pcall" and b[1][0] == "global" and b[1][1] in _NEVER_NONE:
+                        return False
+                    if a[0] == "const" and b[0] in ("tuple", "list", "set", "dict", "closure", "func") and not isinstance(a[1], tuple):
+                        return False
+                if self._distinct_consts(l, r, st):
+                    return False
+            if op == "in" and r[0] in ("tuple", "list", "set") and l[0] == "const" and all(x[0] == "const" for x in r[1]):
+                return any(x[1] == l[1] for x in r[1])
+        return None
+
+    def truth(self, v, st):
+        k, pol = self.norm(v, True)
+        t = self.base_truth(k, st)
+        if t is None:
+            t = st.facts.get(k)
+        if t is None:
+            return None
+        return t if pol else not t
+
+    def assume(self, v, pol: bool, st) -> bool:
+        k, p = self.norm(v, pol)
+        t = self.base_truth(k, st)
+        if t is None:
+            t = st.facts.get(k)
+        if t is not None:
+            return t == p
+        st.facts[k] = p
+        return True
+
+    # ---------------------------------------------------------------- expressions: list of (value, state)
+    def ev_seq(self, exprs, st):
+        outs = [((), st)]
+        for e in exprs:
+            nxt = []
+            for vals, s in outs:
+                for v, s2 in self.ev(e, s):
+                    nxt.append((vals + (v,), s2))
+            outs = nxt
+        return outs
+
+    def scan(self, e, st):
+        """an expression that is not evaluated structurally: only the calls hidden in it matter"""
+        for n in ast.walk(e):
+            if isinstance(n, ast.Call):
+                self.on_opaque_call(n, st)
+        return [(self.unknown(), st)]
+
+    def ev(self, e, st):  # noqa: C901, PLR0911, PLR0912
+        self.steps += 1
+        if self.steps > self.MAX_STEPS:
+            raise _Und("too many symbolic steps")
+        if e is None:
+            return [(_NONE, st)]
+        if isinstance(e, ast.Constant):
+            return [(("const", e.value), st)]
+        if isinstance(e, ast.Name):
+            return [(self.lookup(e.id, st), st)]
+        if isinstance(e, ast.Attribute):
+            return [(self.read_attr(b, e.attr, s), s) for b, s in self.ev(e.value, st)]
+        if isinstance(e, ast.Subscript):
+            return self.ev_subscript(e, st)
+        if isinstance(e, (ast.Tuple, ast.List, ast.Set)):
+            tag = "tuple" if isinstance(e, ast.Tuple) else "list" if isinstance(e, ast.List) else "set"
+            if any(isinstance(x, ast.Starred) for x in e.elts):
+                out = []
+                for vals, s in self.ev_seq([x.value if isinstance(x, ast.Starred) else x for x in e.elts], st):
+                    flat = []
+                    for x, v in zip(e.elts, vals):
+                        if isinstance(x, ast.Starred):
+                            if v[0] in ("tuple", "list"):
+                                flat.extend(v[1])
+                            else:
+                                if v[0] == "gen":
+                                    self.exhaust(v, s)
+                                flat = None
+                                break
+                        else:
+                            flat.append(v)
+                    out.append(((tag, tuple(flat)) if flat is not None else self.unknown(), s))
+                return out
+            return [((tag, vals), s) for vals, s in self.ev_seq(e.elts, st)]
+        if isinstance(e, ast.Dict):
+            if any(k is None for k in e.keys):
+                return [(self.unknown(), s) for _, s in self.ev_seq([x for x in list(e.keys) + list(e.values) if x is not None], st)]
+            n = len(e.keys)
+            return [(("dict", tuple(zip(vals[:n], vals[n:]))), s) for vals, s in self.ev_seq(list(e.keys) + list(e.values), st)]
+        if isinstance(e, ast.Compare):
+            out = []
+            for vals, s in self.ev_seq([e.left, *e.comparators], st):
+                if len(e.ops) == 1 and type(e.ops[0]) in _CMP:
+                    out.append((("cmp", _CMP[type(e.ops[0])], vals[0], vals[1]), s))
+                else:
+                    out.append((("cmpchain", tuple(type(o).__name__ for o in e.ops), vals), s))
+            return out
+        if isinstance(e, ast.BoolOp):
+            return self.ev_boolop(e, st)
+        if isinstance(e, ast.UnaryOp):
+            out = []
+            for v, s in self.ev(e.operand, st):
+                if isinstance(e.op, ast.Not):
+                    out.append((("not", v), s))
+                elif isinstance(e.op, ast.USub) and v[0] == "const" and isinstance(v[1], (int, float)):
+                    out.append((("const", -v[1]), s))
+                else:
+                    out.append((("unop", type(e.op).__name__, v), s))
+            return out
+        if isinstance(e, ast.BinOp):
+            return [(("binop", type(e.op).__name__, vals[0], vals[1]), s) for vals, s in self.ev_seq([e.left, e.right], st)]
+        if isinstance(e, ast.IfExp):
+            out = []
+            for b, s in self.test(e.test, st):
+                out.extend(self.ev(e.body if b else e.orelse, s))
+            return out
+        if isinstance(e, ast.Call):
+            return self.ev_call(e, st)
+        if isinstance(e, ast.NamedExpr):
+            out = []
+            for v, s in self.ev(e.value, st):
+                self.assign(e.target, v, s)
+                out.append((v, s))
+            return out
+        if isinstance(e, ast.Lambda):
+            return [(self.closure(e, st), st)]
+        if isinstance(e, ast.Await):
+            return self.ev(e.value, st)
+        if isinstance(e, ast.Starred):
+            return self.ev(e.value, st)
+        if isinstance(e, (ast.ListComp, ast.SetComp, ast.GeneratorExp, ast.DictComp)):
+            return self.ev_comp(e, st)
+        if isinstance(e, ast.Yield):
+            fr = st.frames[-1]
+            if fr.collect is None:
+                raise _Und("yield outside a followed generator")
+            out = []
+            for v, s in self.ev(e.value, st):
+                snap = s.fork()
+                fr.collect.append((v, snap))
+                out.append((self.unknown(), s))
+            return out
+        if isinstance(e, ast.YieldFrom):
+            fr = st.frames[-1]
+            if fr.collect is None:
+                raise _Und("yield outside a followed generator")
+            out = []
+            for v, s in self.ev(e.value, st):
+                for x, s2 in self.elements(v, s.fork()):
+                    fr.collect.append((x, s2.fork()))
+                out.append((self.unknown(), s))
+            return out
+        if isinstance(e, (ast.JoinedStr, ast.FormattedValue)):
+            return self.scan(e, st)
+        if isinstance(e, ast.Slice):
+            return [(("sliceobj", vals), s) for vals, s in self.ev_seq([e.lower, e.upper, e.step], st)]
+        return self.scan(e, st)
+
+    def ev_boolop(self, e, st):
+        is_and = isinstance(e.op, ast.And)
+        out = []
+        pending = [st]
+        for i, operand in enumerate(e.values):
+            last = i == len(e.values) - 1
+            nxt = []
+            for s in pending:
+                for v, s2 in self.ev(operand, s):
+                    if last:
+                        out.append((v, s2))
+                        continue
+                    t = self.truth(v, s2)
+                    if t is None:
+                        s3 = s2.fork()
+                        if self.assume(v, not is_and, s3):
+                            out.append((v, s3))
+                        if self.assume(v, is_and, s2):
+                            nxt.append(s2)
+                    elif t == is_and:
+                        nxt.append(s2)
+                    else:
+                        out.append((v, s2))
+            pending = nxt
+        return out
+
+    def test(self, e, st):
+        """[(outcome, state)] of evaluating e for its truth value (short-circuit order, facts recorded)"""
+        if isinstance(e, ast.UnaryOp) and isinstance(e.op, ast.Not):
+            return [(not b, s) for b, s in self.test(e.operand, st)]
+        if isinstance(e, ast.BoolOp):
+            is_and = isinstance(e.op, ast.And)
+            out = []
+            pending = [st]
+            for operand in e.values:
+                nxt = []
+                for s in pending:
+                    for b, s2 in self.test(operand, s):
+                        if b == is_and:
+                            nxt.append(s2)
+                        else:
+                            out.append((b, s2))
+                pending = nxt
+            out.extend((is_and, s) for s in pending)
+            return out
+        if isinstance(e, ast.IfExp):
+            out = []
+            for b, s in self.test(e.test, st):
+                out.extend(self.test(e.body if b else e.orelse, s))
+            return out
+        out = []
+        for v, s in self.ev(e, st):
+            t = self.truth(v, s)
+            if t is None:
+                s2 = s.fork()
+                if self.assume(v, True, s):
+                    out.append((True, s))
+                if self.assume(v, False, s2):
+                    out.append((False, s2))
+            else:
+                out.append((t, s))
+        return out
+
+    def class_table(self, base, name, st):
+        """value of a class-level literal table `self.NAME` / `Class.NAME` (dispatch tables), else None"""
+        b = _strip(base)
+        ci = None
+        if b == _SELF or b == ("param", "cls"):
+            ci = self.cls
+        elif b[0] == "global":
+            r = self.repo.resolve_name(st.frames[-1].fi.module, b[1])
+            ci = r if hasattr(r, "lookup_attr") else None
+        if ci is None or ci.lookup(name) is not None:
+            return None
+        expr = ci.lookup_attr(name)
+        if not isinstance(expr, (ast.Dict, ast.Tuple, ast.List)):
+            return None
+
+        def conv(x):
+            if isinstance(x, ast.Constant):
+                return ("const", x.value)
+            if isinstance(x, ast.Name):
+                m = ci.lookup(x.id)
+                return ("func", m) if m is not None else ("global", x.id)
+            if isinstance(x, ast.Attribute):
+                inner = conv(x.value)
+                return ("attr", inner, x.attr) if inner is not None else None
+            if isinstance(x, (ast.Tuple, ast.List)):
+                vs = [conv(y) for y in x.elts]
+                return None if any(y is None for y in vs) else ("tuple", tuple(vs))
+            if isinstance(x, ast.Dict):
+                ks = [conv(y) if y is not None else None for y in x.keys]
+                vs = [conv(y) for y in x.values]
+                return None if any(y is None for y in ks + vs) else ("dict", tuple(zip(ks, vs)))
+            return None
+        return conv(expr)
+
+    def read_attr(self, base, name, st):
+        key = (_strip(base), name)
+        if key in st.heap:
+            return st.heap[key]
+        r = self.read_field(base, name, st)
+        if r is not None:
+            return r
+        if base[0] == "const" and base[1] is None:
+            return self.unknown()           # attribute of None: this path raises; no value
+        if base[0] == "record":
+            for f, val in base[2]:
+                if f == name:
+                    return val
+        t = self.class_table(base, name, st)
+        if t is not None:
+            return t
+        return ("attr", base, name, st.epoch)
+
+    def ev_subscript(self, e, st):
+        out = []
+        if isinstance(e.slice, ast.Slice):
+            for vals, s in self.ev_seq([e.value, e.slice.lower, e.slice.upper, e.slice.step], st):
+                out.append((("slice", vals[0], vals[1], vals[2], vals[3]), s))
+            return out
+        for vals, s in self.ev_seq([e.value, e.slice], st):
+            out.extend(self.index(vals[0], vals[1], s))
+        return out
+
+    def index(self, base, idx, st):
+        """base[idx]: literal tables select (all entries when the key is not known, each under the assumption that selects it)"""
+        if base[0] == "record":
+            base = ("tuple", tuple(val for _, val in base[2]))
+        if base[0] in ("tuple", "list"):
+            elts = base[1]
+            if idx[0] == "const" and isinstance(idx[1], int) and not isinstance(idx[1], bool):
+                if -len(elts) <= idx[1] < len(elts):
+                    return [(elts[idx[1]], st)]
+                return [(self.unknown(), st)]
+            if idx[0] == "const" and isinstance(idx[1], bool):
+                return [(elts[int(idx[1])], st)] if len(elts) == 2 else [(self.unknown(), st)]
+            out = []
+            for i, x in enumerate(elts):
+                s = st.fork()
+                if len(elts) == 2 and idx[0] in ("truth", "cmp", "not", "pcall"):
+                    if not self.assume(idx, bool(i), s):
+                        continue
+                elif not self.assume(("cmp", "eq", idx, ("const", i)), True, s):
+                    continue
+                out.append((x, s))
+            return out
+        if base[0] == "dict":
+            items = base[1]
+            if idx[0] == "const":
+                for k, v in items:
+                    if k[0] == "const" and k[1] == idx[1] and (isinstance(k[1], bool) == isinstance(idx[1], bool)):
+                        return [(v, st)]
+                if all(k[0] == "const" for k, _ in items):
+                    return [(self.unknown(), st)]       # KeyError
+            out = []
+            for k, v in items:
+                s = st.fork()
+                if k[0] == "const" and isinstance(k[1], bool):
+                    if not self.assume(idx, k[1], s):
+                        continue
+                elif not self.assume(("cmp", "eq", idx, k), True, s):
+                    continue
+                out.append((v, s))
+            return out
+        return [(("sub", base, idx), st)]
+
+    def iterates(self, cfg, node) -> bool:
+        key = (id(cfg), node.id)
+        if key not in self._iterates:
+            self._iterates[key] = node in cfg.reach([v for v, lab in node.succ if lab is not False and lab != "exc"])
+        return self._iterates[key]
+
+    def first(self, v, st):
+        """[(element, state)]: the first thing iterating over v produces"""
+        while v[0] == "iter":
+            v = v[1]
+        if v[0] == "gen":
+            return self.run_generator(v, st)
+        if v[0] in ("tuple", "list"):
+            return [(v[1][0], st)] if v[1] else []
+        if v[0] == "filtered":
+            return self.elements(v, st)
+        if v[0] == "pcall" and v[1] == ("global", "enumerate") and 1 <= len(v[2]) <= 2:
+            return [(("tuple", (v[2][1] if len(v[2]) == 2 else ("const", 0), x)), s) for x, s in self.first(v[2][0], st)]
+        return [(("sub", v, ("const", 0)), st)]
+
+    def elements(self, v, st):
+        """[(element, state)]: what iterating over v can produce"""
+        if v[0] == "gen":
+            return self.run_generator(v, st)
+        if v[0] == "iter":
+            return self.elements(v[1], st)
+        if v[0] in ("tuple", "list", "set"):
+            out = []
+            for x in v[1]:
+                out.append((x, st.fork()))
+            return out
+        if v[0] == "pcall" and v[1] == ("global", "enumerate") and 1 <= len(v[2]) <= 2:
+            return [(("tuple", (self.unknown(), x)), s) for x, s in self.elements(v[2][0], st)]
+        if v[0] == "filtered":
+            out = []
+            for x, s in self.elements(v[2], st):
+                for r, s2 in self.call(v[3], v[1], [x], {}, s):
+                    t = self.truth(r, s2)
+                    if t is True or (t is None and self.assume(r, True, s2)):
+                        out.append((x, s2))
+            return out
+        return [(("elem", v, self.uid()), st)]
+
+    def ev_comp(self, e, st):  # noqa: C901
+        gens = e.generators
+        if len(gens) != 1 or gens[0].is_async:
+            return self.scan(e, st)
+        g = gens[0]
+        res = []
+        for iv, s in self.ev(g.iter, st):
+            n_ev, n_eff = len(s.events), len(s.effects)
+            new_ev, new_eff = [], []
+            same = isinstance(e, (ast.ListComp, ast.SetComp, ast.GeneratorExp)) and isinstance(e.elt, ast.Name) \
+                and isinstance(g.target, ast.Name) and e.elt.id == g.target.id
+            place = ("elem", iv, self.uid())
+            common = None
+            one_elt = None
+            probe = s.fork()
+            before = dict(probe.facts)
+            alts = [(place, probe)] if iv[0] != "gen" else self.elements(iv, probe)
+            for v, s2 in alts:
+                self.assign(g.target, v, s2)
+                states = [s2]
+                for cond in g.ifs:
+                    nxt = []
+                    for s3 in states:
+                        nxt.extend(s4 for b, s4 in self.test(cond, s3) if b)
+                    states = nxt
+                for s3 in states:
+                    elts = [e.key, e.value] if isinstance(e, ast.DictComp) else [e.elt]
+                    for vals, s4 in self.ev_seq(elts, s3):
+                        self.on_include(e, vals[-1], s4)
+                        one_elt = vals[-1]
+                        new_ev.extend(x for x in s4.events[n_ev:] if x not in new_ev)
+                        new_eff.extend(s4.effects[n_eff:])
+                        gained = {(k, p) for k, p in s4.facts.items() if before.get(k) != p}
+                        common = gained if common is None else common & gained
+            s.events.extend(new_ev)
+            s.effects.extend(new_eff)
+            filt = tuple(sorted(((_strip(k), p) for k, p in (common or ())), key=lambda kp: _vrepr(kp[0]))) if same and iv[0] != "gen" else None
+            shape = _strip(one_elt) if one_elt is not None and not g.ifs and iv[0] != "gen" else None
+            res.append((("comp", self.uid(), iv, _strip(place), filt, shape), s))
+        return res
+
+    # ---------------------------------------------------------------- calls
+    def ev_call(self, c, st):  # noqa: C901
+        out = []
+        f = c.func
+        if isinstance(f, ast.Attribute):
+            heads = []
+            for b, s in self.ev(f.value, st):
+                key = (_strip(b), f.attr)
+                if key in s.heap:
+                    heads.append((s.heap[key], s))
+                else:
+                    heads.append((("attr", b, f.attr, s.epoch), s))
+        else:
+            heads = self.ev(f, st)
+        for fv, s in heads:
+            exprs = [a.value if isinstance(a, ast.Starred) else a for a in c.args] + [k.value for k in c.keywords]
+            for vals, s2 in self.ev_seq(exprs, s):
+                args = []
+                for a, v in zip(c.args, vals):
+                    if isinstance(a, ast.Starred):
+                        if v[0] in ("tuple", "list"):
+                            args.extend(v[1])
+                        else:
+                            if v[0] == "gen":
+                                self.exhaust(v, s2)
+                            args.append(_STAR)
+                    else:
+                        args.append(v)
+                kwargs = {}
+                for k, v in zip(c.keywords, vals[len(c.args):]):
+                    if k.arg is None:
+                        if v[0] == "dict" and all(x[0][0] == "const" and isinstance(x[0][1], str) for x in v[1]):
+                            kwargs.update({x[0][1]: x[1] for x in v[1]})
+                        else:
+                            kwargs = None
+                            break
+                    else:
+                        kwargs[k.arg] = v
+                out.extend(self.call(c, fv, args, kwargs, s2))
+        return out
+
+    def call(self, c, fv, args, kwargs, st):  # noqa: C901, PLR0911, PLR0912
+        lazy = fv[0] in ("closure", "func", "bound") or (fv[0] == "global" and fv[1] in ("iter", "next", "reversed", "enumerate", "filter", "map", "zip", "cast")) \
+            or (fv[0] == "attr" and _strip(fv[1]) == _SELF and self.cls is not None and self.cls.lookup(fv[2]) is not None and self.follow(self.cls.lookup(fv[2])))
+        if not lazy:
+            for a in list(args) + list((kwargs or {}).values()):
+                if a[0] == "gen":
+                    self.exhaust(a, st)
+        r = self.on_call(c, fv, args, kwargs, st)
+        if r is not None:
+            return r
+        tag = fv[0]
+        if tag == "closure":
+            return self.invoke(fv[1], None, args, kwargs, st, c, self.cenv.get(fv[2]) if len(fv) > 2 else None)
+        if tag == "func":
+            if self.follow(fv[1]):
+                return self.invoke(fv[1].node, None, args, kwargs, st, c)
+            return self.on_unknown_call(c, fv, args, kwargs, st)
+        if tag == "bound":
+            if self.follow(fv[2]):
+                return self.invoke(fv[2].node, fv[1], args, kwargs, st, c)
+            return self.on_unknown_call(c, fv, args, kwargs, st)
+        if tag == "global":
+            r = self.builtin(c, fv[1], args, kwargs, st)
+            if r is not None:
+                return r
+            target = self.repo.resolve_name(st.frames[-1].fi.module, fv[1])
+            rec = self.record(target, args, kwargs)
+            if rec is not None:
+                return [(rec, st)]
+            if hasattr(target, "node") and hasattr(target, "qualname") and not hasattr(target, "methods") and self.follow(target):
+                return self.invoke(target.node, None, args, kwargs, st, c)
+            return self.on_unknown_call(c, fv, args, kwargs, st)
+        if tag == "attr":
+            recv, name = fv[1], fv[2]
+            if _strip(recv) == _SELF and self.cls is not None:
+                m = self.cls.lookup(name)
+                if m is not None and self.follow(m):
+                    decs = m.decorator_names()
+                    if "staticmethod" in decs:
+                        return self.invoke(m.node, None, args, kwargs, st, c)
+                    return self.invoke(m.node, recv, args, kwargs, st, c)
+            if recv[0] == "global" and not kwargs is None:
+                ci = self.repo.resolve_name(st.frames[-1].fi.module, recv[1])
+                m = ci.lookup(name) if hasattr(ci, "lookup") and hasattr(ci, "methods") else None
+                if m is not None and self.follow(m):
+                    return self.invoke(m.node, None, args, kwargs, st, c)
+            if recv[0] == "dict" and name == "get" and args and _STAR not in args:
+                alts = self.index(recv, args[0], st.fork())
+                dflt = args[1] if len(args) > 1 else _NONE
+                if not (args[0][0] == "const" and len(alts) == 1 and alts[0][0][0] != "unknown"):
+                    alts.append((dflt, st))
+                return alts
+            if _local_container(recv) and name in _MUTATORS | {"popitem", "setdefault", "appendleft", "popleft", "rotate", "extendleft"}:
+                # an object created in this very function is changed: nothing leaves the function, but its literal value is stale
+                fresh = ("local", self.uid())
+                for fr in st.frames:
+                    for k, val in list(fr.env.items()):
+                        if val == recv:
+                            fr.env[k] = fresh
+                return [(self.unknown(), st)]
+            if name in _PURE_METHODS and recv[0] not in ("unknown", "call"):
+                return [(("pcall", fv, tuple(args) + tuple(sorted((kwargs or {}).items(), key=lambda kv: kv[0])), st.epoch), st)]
+        return self.on_unknown_call(c, fv, args, kwargs, st)
+
+    def builtin(self, c, name, args, kwargs, st):  # noqa: C901, PLR0911, PLR0912
+        if kwargs is None or _STAR in args:
+            return [(self.unknown(), st)] if name in _PURE_BUILTINS or name in _SAME_ELEMENTS or name in ("bool", "next", "getattr", "cast") else None
+        if name == "bool":
+            return [(("truth", args[0]) if args else ("const", False), st)]
+        if name == "cast" and len(args) == 2:
+            return [(args[1], st)]
+        if name in _SAME_ELEMENTS and len(args) == 1 and name != "deque":
+            return [(("iter", args[0]) if name == "iter" else ("reversed", args[0]) if name == "reversed" else args[0], st)]
+        if name == "next" and args:
+            src = args[0]
+            out = []
+            inner = src[1] if src[0] == "iter" else src
+            if inner[0] in ("tuple", "list"):
+                if inner[1]:
+                    return [(inner[1][0], st)]
+                if len(args) > 1:
+                    return [(args[1], st)]
+                self._raised.append(st)
+                return []
+            s_none = st.fork()
+            for x, s in self.first(src, st):
+                if inner[0] not in ("gen", "tuple", "list", "set"):
+                    self.assume(inner, True, s)
+                out.append((x, s))
+            feasible = inner[0] in ("gen",) or self.assume(inner, False, s_none)
+            if inner[0] in ("tuple", "list", "set") and inner[1]:
+                feasible = False
+            if feasible:
+                if len(args) > 1:
+                    out.append((args[1], s_none))
+                else:
+                    self._raised.append(s_none)
+            return out
+        if name == "getattr" and len(args) >= 2 and args[1][0] == "const" and isinstance(args[1][1], str):
+            base, attr = args[0], args[1][1]
+            if _strip(base) == _SELF and self.cls is not None and self.cls.lookup(attr) is not None:
+                return [(("bound", base, self.cls.lookup(attr)), st)]
+            out = [(self.read_attr(base, attr, st), st)]
+            if len(args) == 3 and _strip(base) != _SELF:
+                out = [(("pcall", ("global", "getattr"), tuple(args), st.epoch), st)]
+            return out
+        if name == "filter" and len(args) == 2 and args[0][0] in ("closure", "func", "bound", "attr"):
+            return [(("filtered", args[0], args[1], c), st)]
+        if name in _PURE_BUILTINS or name in _SAME_ELEMENTS:
+            return [(("pcall", ("global", name), tuple(args), st.epoch), st)]
+        return None
+
+    def record(self, ci, args, kwargs):
+        """the value built by calling a NamedTuple / plain dataclass: ("record", class name, ((field, value), ...)); None when ci is not one"""
+        if not hasattr(ci, "annotations") or not hasattr(ci, "methods") or kwargs is None or _STAR in args:
+            return None
+        decs = {(chain(d.func) if isinstance(d, ast.Call) else chain(d)) or "" for d in ci.node.decorator_list}
+        plain = ("NamedTuple" in ci.base_names or any(d.split(".")[-1] == "dataclass" for d in decs)) \
+            and not ({"__init__", "__new__", "__post_init__"} & set(ci.methods)) and len(ci.base_names) <= 1
+        if not plain:
+            return None
+        fields = list(ci.annotations)
+        if len(args) > len(fields) or any(k not in fields for k in kwargs):
+            return None
+        vals = dict(zip(fields, args))
+        vals.update(kwargs)
+        for f in fields:
+            if f not in vals:
+                d = ci.attrs.get(f)
+                if d is None:
+                    return None
+                cv = const_value(d)
+                if cv is NOCONST:
+                    return None
+                vals[f] = ("const", cv)
+        return ("record", ci.name, tuple((f, vals[f]) for f in fields))
+
+    def bind(self, fnode, recv, args, kwargs, st):
+        a = fnode.args
+        names = [x.arg for x in a.posonlyargs + a.args]
+        env = {}
+        pos = ([recv] if recv is not None else []) + list(args)
+        vague = kwargs is None
+        if _STAR in pos:
+            pos = pos[:pos.index(_STAR)]
+            vague = True
+        for n, v in zip(names, pos):
+            env[n] = v
+        if len(pos) > len(names):
+            if a.vararg is None:
+                raise _Und(f"too many arguments for {getattr(fnode, 'name', 'lambda')}")
+            env[a.vararg.arg] = ("tuple", tuple(pos[len(names):]))
+        elif a.vararg is not None:
+            env[a.vararg.arg] = ("tuple", ()) if not vague else self.unknown()
+        extra = {}
+        for k, v in (kwargs or {}).items():
+            if k in names or k in [x.arg for x in a.kwonlyargs]:
+                env[k] = v
+            else:
+                extra[k] = v
+        if a.kwarg is not None:
+            env[a.kwarg.arg] = ("dict", tuple((("const", k), v) for k, v in extra.items())) if not vague else self.unknown()
+        dflt = dict(zip(names[len(names) - len(a.defaults):], a.defaults))
+        dflt.update({x.arg: d for x, d in zip(a.kwonlyargs, a.kw_defaults) if d is not None})
+        for n in names + [x.arg for x in a.kwonlyargs]:
+            if n in env:
+                continue
+            if vague:
+                env[n] = self.unknown()
+            elif n in dflt:
+                d = dflt[n]
+                cv = const_value(d)
+                env[n] = ("const", cv) if cv is not NOCONST else (("global", d.id) if isinstance(d, ast.Name) else self.unknown())
+            else:
+                env[n] = self.unknown()
+        return env
+
+    def invoke(self, fnode, recv, args, kwargs, st, c, captured=None):
+        fi = self.repo.info(fnode) if not isinstance(fnode, ast.Lambda) else None
+        if len(st.frames) >= self.MAX_DEPTH or any(f.fi is not None and f.fi.node is fnode for f in st.frames):
+            raise _Und(f"recursive or too deep call of {getattr(fnode, 'name', 'lambda')}")
+        env = self.bind(fnode, recv, args, kwargs, st)
+        self.entered.add(id(fnode))
+        if isinstance(fnode, ast.Lambda):
+            fi = _LambdaInfo(fnode, st.frames[-1].fi)
+        if _is_generator(fnode):
+            g = ("gen", self.uid())
+            self.gens[g] = (fi, env, captured)
+            return [(g, st)]
+        st.frames.append(_Frame(fi, env, None, captured))
+        out = []
+        for kind, s in self.run(st):
+            s.frames.pop()
+            if kind == "return":
+                v, s.ret = s.ret, _NONE
+                out.append((v, s))
+            else:
+                s.ret = _NONE
+                self._raised.append(s)
+        return out
+
+    def run_generator(self, g, st):
+        fi, env, captured = self.gens[g]
+        if len(st.frames) >= self.MAX_DEPTH or any(f.fi is fi for f in st.frames):
+            raise _Und("recursive generator")
+        collector = []
+        s = st.fork()
+        s.frames.append(_Frame(fi, dict(env), collector, captured))
+        n_ev, n_eff = len(st.events), len(st.effects)
+        saved, self._raised = self._raised, []
+        try:
+            ends = self.run(s)
+        finally:
+            self._raised = saved
+        out = []
+        for v, snap in collector:
+            snap.frames.pop()
+            out.append((v, snap))
+        # effects of the generator body after its last yield still happen when the generator is exhausted
+        for _, e in ends:
+            for x in out:
+                x[1].events.extend(y for y in e.events[n_ev:] if y not in x[1].events)
+                x[1].effects.extend(y for y in e.effects[n_eff:] if y not in x[1].effects[n_eff:])
+        self._gen_ends = [e for _, e in ends]
+        return out
+
+    def exhaust(self, g, st) -> None:
+        """the generator is consumed as a whole by something that is not followed (list(), *unpacking, an unknown call): all its effects may happen"""
+        n_ev, n_eff = len(st.events), len(st.effects)
+        alts = self.run_generator(g, st)
+        for e in [x[1] for x in alts] + list(self._gen_ends):
+            st.events.extend(y for y in e.events[n_ev:] if y not in st.events)
+            st.effects.extend(y for y in e.effects[n_eff:] if y not in st.effects[n_eff:])
+        st.epoch += 1
+        st.qver += 1
+        st.heap.clear()
+
+    # ---------------------------------------------------------------- statements
+    def assign(self, t, v, st) -> None:
+        if isinstance(t, ast.Name):
+            st.frames[-1].env[t.id] = v
+        elif isinstance(t, (ast.Tuple, ast.List)):
+            if any(isinstance(x, ast.Starred) for x in t.elts):
+                star = next(i for i, x in enumerate(t.elts) if isinstance(x, ast.Starred))
+                for i, x in enumerate(t.elts):
+                    if i < star:
+                        self.assign(x, ("sub", v, ("const", i)), st)
+                    elif i == star:
+                        self.assign(x.value, self.unknown(), st)
+                    else:
+                        self.assign(x, ("sub", v, ("const", i - len(t.elts))), st)
+            elif v[0] in ("tuple", "list") and len(v[1]) == len(t.elts):
+                for x, y in zip(t.elts, v[1]):
+                    self.assign(x, y, st)
+            elif v[0] == "record" and len(v[2]) == len(t.elts):
+                for x, (_, y) in zip(t.elts, v[2]):
+                    self.assign(x, y, st)
+            else:
+                for i, x in enumerate(t.elts):
+                    self.assign(x, ("sub", v, ("const", i)), st)
+        elif isinstance(t, ast.Attribute):
+            for b, s in self.ev(t.value, st)[:1]:
+                s.heap[(_strip(b), t.attr)] = v
+                self.on_store(t, b, t.attr, v, s)
+        elif isinstance(t, ast.Subscript):
+            for vals, s in self.ev_seq([t.value, t.slice], st)[:1]:
+                self.on_store(t, vals[0], vals[1], v, s)
+        elif isinstance(t, ast.Starred):
+            self.assign(t.value, self.unknown(), st)
+
+    def on_store(self, t, base, name, v, st) -> None:
+        return None
+
+    def exec(self, s, st):  # noqa: C901, PLR0911, PLR0912
+        """[(state)] after the simple statement / expression s; raising outcomes go to self._raised"""
+        if isinstance(s, ast.expr):
+            out = []
+            for v, s2 in self.ev(s, st):
+                p = parent(s)
+                if isinstance(p, (ast.For, ast.AsyncFor)) and p.iter is s:
+                    s2.frames[-1].iters[id(p)] = v
+                out.append(s2)
+            return out
+        if isinstance(s, ast.Assign):
+            out = []
+            for v, s2 in self.ev(s.value, st):
+                for t in s.targets:
+                    self.assign(t, v, s2)
+                out.append(s2)
+            return out
+        if isinstance(s, ast.AnnAssign):
+            if s.value is None:
+                return [st]
+            out = []
+            for v, s2 in self.ev(s.value, st):
+                self.assign(s.target, v, s2)
+                out.append(s2)
+            return out
+        if isinstance(s, ast.AugAssign):
+            out = []
+            for v, s2 in self.ev(s.value, st):
+                if isinstance(s.target, ast.Name):
+                    old = self.lookup(s.target.id, s2)
+                    self.assign(s.target, ("binop", type(s.op).__name__, old, v), s2)
+                else:
+                    self.assign(s.target, self.unknown(), s2)
+                out.append(s2)
+            return out
+        if isinstance(s, ast.Expr):
+            return [s2 for _, s2 in self.ev(s.value, st)]
+        if isinstance(s, ast.Return):
+            out = []
+            for v, s2 in self.ev(s.value, st):
+                s2.ret = v
+                out.append(s2)
+            return out
+        if isinstance(s, ast.Raise):
+            for _, s2 in (self.ev(s.exc, st) if s.exc is not None else [(None, st)]):
+                self._raised.append(s2)
+            return []
+        if isinstance(s, ast.Assert):
+            self._raised.append(st)
+            return []
+        if isinstance(s, (ast.FunctionDef, ast.AsyncFunctionDef)):
+            st.frames[-1].env[s.name] = self.closure(s, st) if not s.decorator_list else self.unknown()
+            return [st]
+        if isinstance(s, ast.ClassDef):
+            st.frames[-1].env[s.name] = self.unknown()
+            return [st]
+        if isinstance(s, (ast.With, ast.AsyncWith)):
+            out = [st]
+            for item in s.items:
+                nxt = []
+                for s2 in out:
+                    for v, s3 in self.ev(item.context_expr, s2):
+                        if item.optional_vars is not None:
+                            self.assign(item.optional_vars, self.unknown(), s3)
+                        nxt.append(s3)
+                out = nxt
+            return out
+        if isinstance(s, (ast.Break, ast.Continue, ast.Pass)):
+            return [st]
+        if isinstance(s, (ast.Import, ast.ImportFrom)):
+            for al in s.names:
+                st.frames[-1].env[(al.asname or al.name).split(".")[0]] = ("global", al.asname or al.name)
+            return [st]
+        if isinstance(s, ast.Delete):
+            for t in s.targets:
+                if isinstance(t, ast.Name):
+                    st.frames[-1].env[t.id] = self.unknown()
+                elif isinstance(t, ast.Subscript):
+                    for vals, s2 in self.ev_seq([t.value, t.slice], st)[:1]:
+                        self.on_store(t, vals[0], vals[1], None, s2)
+                elif isinstance(t, ast.Attribute):
+                    for b, s2 in self.ev(t.value, st)[:1]:
+                        self.on_store(t, b, t.attr, None, s2)
+            return [st]
+        if isinstance(s, (ast.Global, ast.Nonlocal)):
+            raise _Und("global / nonlocal rebinding")
+        raise _Und(f"statement {type(s).__name__}")
+
+    def havoc(self, loop, st) -> None:
+        """at a loop head: what the body assigns is unknown (any iteration), fields may have changed"""
+        fr = st.frames[-1]
+        body = list(loop.body)
+        names = _stored_names(body)
+        if isinstance(loop, (ast.For, ast.AsyncFor)):
+            names |= {n.id for n in ast.walk(loop.target) if isinstance(n, ast.Name)}
+        else:
+            names |= {n.target.id for n in ast.walk(loop.test) if isinstance(n, ast.NamedExpr)}
+        for n in names:
+            if n in self.locals_of(fr.fi.node):
+                fr.env[n] = ("loopvar", n, fr.fi, self.uid())
+        st.epoch += 1
+        st.qver += 1
+        st.heap.clear()
+
+    def match_stmt(self, m, st):
+        """[(("idx", i), state)]: case i of the match statement is entered (i = number of cases: no case matched)"""
+        outs = []
+        for v, s in self.ev(m.subject, st):
+            remaining = [s]
+            for i, case in enumerate(m.cases):
+                nxt = []
+                for s0 in remaining:
+                    for hit, s1 in self.match_pattern(case.pattern, v, s0):
+                        if not hit:
+                            nxt.append(s1)
+                        elif case.guard is None:
+                            outs.append((("idx", i), s1))
+                        else:
+                            for b, s2 in self.test(case.guard, s1):
+                                (outs if b else nxt).append(((("idx", i), s2)) if b else s2)
+                remaining = nxt
+            outs.extend((("idx", len(m.cases)), s0) for s0 in remaining)
+        return outs
+
+    def match_pattern(self, pat, v, st):
+        """[(matched, state)] for one pattern against the value v"""
+        def decide(val, s):
+            t = self.truth(val, s)
+            if t is not None:
+                return [(t, s)]
+            s2 = s.fork()
+            out = []
+            if self.assume(val, True, s):
+                out.append((True, s))
+            if self.assume(val, False, s2):
+                out.append((False, s2))
+            return out
+        if isinstance(pat, ast.MatchValue):
+            out = []
+            for pv, s in self.ev(pat.value, st):
+                out.extend(decide(("cmp", "eq", v, pv), s))
+            return out
+        if isinstance(pat, ast.MatchSingleton):
+            return decide(("cmp", "is", v, ("const", pat.value)), st)
+        if isinstance(pat, ast.MatchAs) and pat.pattern is None:
+            if pat.name:
+                st.frames[-1].env[pat.name] = v
+            return [(True, st)]
+        if isinstance(pat, ast.MatchAs):
+            out = []
+            for hit, s in self.match_pattern(pat.pattern, v, st):
+                if hit and pat.name:
+                    s.frames[-1].env[pat.name] = v
+                out.append((hit, s))
+            return out
+        if isinstance(pat, ast.MatchOr):
+            out = []
+            remaining = [st]
+            for sub in pat.patterns:
+                nxt = []
+                for s0 in remaining:
+                    for hit, s1 in self.match_pattern(sub, v, s0):
+                        (out if hit else nxt).append((True, s1) if hit else s1)
+                remaining = nxt
+            out.extend((False, s0) for s0 in remaining)
+            return out
+        if isinstance(pat, ast.MatchClass) and v[0] == "record" and chain(pat.cls) is not None and chain(pat.cls).split(".")[-1] == v[1] \
+                and len(pat.patterns) <= len(v[2]) and all(k in dict(v[2]) for k in pat.kwd_attrs):
+            subs = [(sub, v[2][i][1]) for i, sub in enumerate(pat.patterns)] + [(sub, dict(v[2])[k]) for k, sub in zip(pat.kwd_attrs, pat.kwd_patterns)]
+            out = []
+            live = [st]
+            for sub, val in subs:
+                nxt = []
+                for s0 in live:
+                    for hit, s1 in self.match_pattern(sub, val, s0):
+                        if hit:
+                            nxt.append(s1)
+                        else:
+                            out.append((False, s1))
+                live = nxt
+            out.extend((True, s0) for s0 in live)
+            return out
+        if isinstance(pat, (ast.MatchSequence,)) and v[0] in ("tuple", "list", "record") and not any(isinstance(x, ast.MatchStar) for x in pat.patterns):
+            items = [val for _, val in v[2]] if v[0] == "record" else list(v[1])
+            if len(items) != len(pat.patterns):
+                return [(False, st)]
+            out = []
+            live = [st]
+            for sub, val in zip(pat.patterns, items):
+                nxt = []
+                for s0 in live:
+                    for hit, s1 in self.match_pattern(sub, val, s0):
+                        if hit:
+                            nxt.append(s1)
+                        else:
+                            out.append((False, s1))
+                live = nxt
+            out.extend((True, s0) for s0 in live)
+            return out
+        # structural patterns are not modelled: either outcome, captured names unknown
+        for n in ast.walk(pat):
+            for field in ("name", "rest"):
+                if isinstance(getattr(n, field, None), str):
+                    st.frames[-1].env[getattr(n, field)] = self.unknown()
+        return [(True, st), (False, st.fork())]
+
+    def step(self, cfg, node, st):  # noqa: C901, PLR0912
+        """[(edge selector, state)]: selector None = unlabelled edges, True / False = condition edges, "exc" = exceptional edges"""
+        kind = node.kind
+        if kind in ("entry", "join"):
+            return [(None, st)]
+        if kind == "dispatch":
+            return [("exc", st)]
+        if kind == "handler":
+            if node.ast.name:
+                st.frames[-1].env[node.ast.name] = self.unknown()
+            return [(None, st)]
+        has_exc = any(lab == "exc" and v is not cfg.raise_exit for v, lab in node.succ)
+        pre = st.fork() if has_exc else None
+        saved, self._raised = self._raised, []
+        try:
+            if kind == "stmt" and isinstance(parent(node.ast), ast.Match) and parent(node.ast).subject is node.ast:
+                outs = self.match_stmt(parent(node.ast), st)
+            elif kind == "stmt":
+                outs = [(None, s) for s in self.exec(node.ast, st)]
+            elif kind == "cond":
+                outs = list(self.test(node.ast, st))
+            elif kind == "loop":
+                fr = st.frames[-1]
+                cnt = fr.visits.get(node.id, 0)
+                fr.visits[node.id] = cnt + 1
+                outs = []
+                if cnt < 2:
+                    loop = node.ast
+                    again = self.iterates(cfg, node)        # can a second iteration begin?
+                    if isinstance(loop, ast.While):
+                        if cnt == 0 and again:
+                            self.havoc(loop, st)
+                        outs = [(None, st)]
+                    else:
+                        iv = fr.iters.get(id(loop), self.unknown())
+                        if not (cnt == 0 and iv[0] in ("tuple", "list") and iv[1]):
+                            outs.append((False, st.fork()))
+                        if cnt == 0:
+                            if again:
+                                self.havoc(loop, st)
+                            for v, s in (self.elements(iv, st) if again else self.first(iv, st)):
+                                self.assign(loop.target, v, s)
+                                outs.append((True, s))
+            else:
+                raise _Und(f"cfg node {kind}")
+            raised = self._raised
+        finally:
+            self._raised = saved
+        if has_exc:
+            # the statement may also be left through its exceptional edge: bindings of the statement not made, its effects counted
+            for _, s in outs:
+                pre.events.extend(x for x in s.events if x not in pre.events)
+                pre.effects.extend(s.effects[len(pre.effects):])
+            outs.append(("exc", pre))
+        if raised:
+            sel = "exc" if any(lab == "exc" for _, lab in node.succ) else "raise"
+            outs.extend((sel, s) for s in raised)
+        return outs
+
+    def run(self, st):
+        """all paths of the function in the top frame of st: [("return" | "raise", state)]"""
+        fr = st.frames[-1]
+        if isinstance(fr.fi, _LambdaInfo):
+            out = []
+            for v, s in self.ev(fr.fi.node.body, st):
+                s.ret = v
+                out.append(("return", s))
+            return out
+        cfg = self.ctx.cfg(fr.fi)
+        out = []
+        work = [(cfg.entry, st)]
+        while work:
+            node, s = work.pop()
+            self.steps += 1
+            if self.steps > self.MAX_STEPS:
+                raise _Und("too many symbolic steps")
+            if node is cfg.exit:
+                out.append(("return", s))
+                continue
+            if node is cfg.raise_exit:
+                out.append(("raise", s))
+                continue
+            for sel, s2 in self.step(cfg, node, s):
+                if sel == "raise":
+                    out.append(("raise", s2))
+                    continue
+                if isinstance(sel, tuple):
+                    targets = [node.succ[sel[1]][0]]
+                elif sel == "exc":
+                    targets = [v for v, lab in node.succ if lab == "exc"]
+                elif sel is None:
+                    targets = [v for v, lab in node.succ if lab is None]
+                else:
+                    targets = [v for v, lab in node.succ if lab is sel]
+                for i, v in enumerate(targets):
+                    work.append((v, s2 if i == len(targets) - 1 else s2.fork()))
+        return out
+
+    def start(self):
+        st = _St()
+        fr = _Frame(self.top)
+        for p in self.top.params():
+            fr.env[p] = ("param", p)
+        st.frames = [fr]
+        saved, self._raised = self._raised, []
+        try:
+            outs = self.run(st)
+        except _Und:
+            raise
+        except AnalysisError as e:
+            raise _Und(str(e)) from None
+        except Exception as e:  # noqa: BLE001
+            if _os.environ.get("C07_DEBUG"):
+                raise
+            raise _Und(f"symbolic execution stopped ({type(e).__name__}: {e})") from None
+        finally:
+            self._raised = saved
+        return outs
+
+
+class _LambdaInfo:
+    """stands in for FuncInfo for a lambda body"""
+
+    def __init__(self, node, outer) -> None:
+        self.node = node
+        self.module = outer.module
+        self.cls = outer.cls
+        self.qualname = outer.qualname + ".<lambda>"
+        self.name = "<lambda>"
+        self.where = outer.where
+
+    def params(self):
+        a = self.node.args
+        return [x.arg for x in a.posonlyargs + a.args]
+
+
+def _call_arg(args, kwargs, index: int, name: str):
+    """value bound to positional #index / keyword `name` of an evaluated call, None when it cannot be told"""
+    if index < len(args) and _STAR not in args[: index + 1]:
+        return args[index]
+    if kwargs:
+        return kwargs.get(name)
+    return None
+
+
+_T_SETTINGS = ("attr", _SELF, "settings")
+_T_OVERLAY = ("attr", _SELF, "tunnel_community")
+_T_SOCKET = ("attr", _SELF, "endpoint")
+_LOG_ROOTS = ("self.logger", "self._logger", "logger", "logging")
+
+
+class _SendPaths(_Interp):
+    """TunnelEndpoint.send on symbolic paths: every send / queue / other effect is judged where it happens."""
+
+    def __init__(self, ctx, fi, te) -> None:
+        super().__init__(ctx, fi)
+        self.te = te
+        ps = fi.params()
+        if len(ps) < 3:
+            raise _Und("TunnelEndpoint.send does not take (self, address, packet)")
+        self.addr, self.packet = ("param", ps[1]), ("param", ps[2])
+        try:
+            self.ready_value = self.repo.resolve_const(self.repo.module(TUNNEL), ast.Name(id="CIRCUIT_STATE_READY", ctx=ast.Load()))
+        except Exception:  # noqa: BLE001
+            self.ready_value = NOCONST
+
+    # ---- what the interpreter may enter
+    def follow(self, fi) -> bool:
+        return fi.cls is self.te and fi.node is not self.top.node and fi.name in self.te.methods and self.te.methods[fi.name] is fi
+
+    def read_field(self, base, name, st):
+        if _strip(base) == _SELF:
+            if name == "send_queue":
+                return ("queue", st.qver)
+            if name == "settings":
+                return ("attr", _SELF, "settings", 0)       # the table is not written while send runs (every write is an event)
+        return None
+
+    # ---- the anonymity switch of this packet
+    def is_key(self, v) -> bool:
+        return v[0] == "slice" and v[1] == self.packet and v[2] in (_NONE, ("const", 0)) and v[3] == ("const", 22) and not isinstance(v[3][1], bool) \
+            and v[4] in (_NONE, ("const", 1))
+
+    def is_read(self, v) -> bool:
+        if v[0] == "truth":
+            return self.is_read(v[1])
+        if v[0] == "pcall" and v[1] == ("attr", _T_SETTINGS, "get"):
+            a = v[2]
+            return 1 <= len(a) <= 2 and self.is_key(a[0]) and (len(a) == 1 or (a[1][0] == "const" and (a[1][1] is None or a[1][1] is False or (type(a[1][1]) is int and a[1][1] == 0))))
+        return v[0] == "sub" and v[1] == _T_SETTINGS and self.is_key(v[2])
+
+    def switch(self, facts) -> set:
+        out = set()
+        for k, pol in facts:
+            k = _strip(k)
+            if self.is_read(k):
+                out.add(ON if pol else OFF)
+            elif k[0] == "cmp" and k[1] == "in" and k[3] == _T_SETTINGS and self.is_key(k[2]):
+                if not pol:
+                    out.add(OFF)        # no entry: get(..., falsy) is falsy
+            elif k[0] == "cmp" and k[1] in ("eq", "is") and pol:
+                for a, b in ((k[2], k[3]), (k[3], k[2])):
+                    if b[0] == "const" and isinstance(b[1], bool) and self.is_read(a):
+                        out.add(ON if b[1] else OFF)
+        return out
+
+    # ---- the circuit
+    def find_ok(self, L) -> bool:
+        fv, args, kwargs = L[2], L[3], dict(L[4]) if L[4] is not None else None
+        if kwargs is None or _STAR in args or fv != ("attr", _T_OVERLAY, "find_circuits"):
+            return False
+        sig = _Source.SIG
+        ef, hp, ct = (_call_arg(args, kwargs, sig.index(n), n) for n in ("exit_flags", "hops", "ctype"))
+        ef, hp, ct = _strip(ef) if ef else None, _strip(hp) if hp else None, _strip(ct) if ct else None
+        ef_ok = ef is not None and ef[0] in ("list", "tuple", "set") and any(_vchain(x) in ("PEER_FLAG_EXIT_IPV8", "tunnel.PEER_FLAG_EXIT_IPV8") for x in ef[1])
+        return bool(ef_ok and hp == ("attr", _SELF, "hops") and (ct is None or _vchain(ct) in ("CIRCUIT_TYPE_DATA", "tunnel.CIRCUIT_TYPE_DATA")))
+
+    def lst_ok(self, L, depth: int = 6) -> bool:
+        if depth <= 0:
+            return False
+        tag = L[0]
+        if tag == "call":
+            return self.find_ok(L)
+        if tag in ("slice", "iter", "reversed"):
+            return self.lst_ok(L[1], depth - 1)
+        if tag == "comp":
+            return L[4] is not None and self.lst_ok(L[2], depth - 1)
+        if tag == "loopvar":
+            src = _Source(L[2])
+            return not isinstance(L[2], _LambdaInfo) and src.lst(ast.Name(id=L[1], ctx=ast.Load()), 6) and src.finds > 0
+        return False
+
+    def pick_ok(self, c) -> bool:
+        tag = c[0]
+        if tag == "sub":
+            return c[2][0] == "const" and isinstance(c[2][1], int) and self.lst_ok(c[1])
+        if tag == "elem":
+            return self.lst_ok(c[1])
+        if tag == "loopvar":
+            src = _Source(c[2])
+            return not isinstance(c[2], _LambdaInfo) and src.name_pick(c[1], 6) and src.finds > 0
+        return False
+
+    def is_ready_const(self, v) -> bool:
+        ch = _vchain(v)
+        if ch is not None and ch.split(".")[-1] == "CIRCUIT_STATE_READY":
+            return True
+        return v[0] == "const" and self.ready_value is not NOCONST and isinstance(v[1], type(self.ready_value)) and v[1] == self.ready_value
+
+    def ready(self, c, facts) -> bool:
+        want = ("attr", c, "state")
+
+        def says(k, pol, who) -> bool:
+            return pol and k[0] == "cmp" and k[1] == "eq" and ((k[2] == who and self.is_ready_const(k[3])) or (k[3] == who and self.is_ready_const(k[2])))
+        if any(says(_strip(k), pol, want) for k, pol in facts):
+            return True
+        # an element of `[x for x in <circuits> if x.state == READY]`
+        src = c[1] if c[0] in ("sub", "elem") else None
+        while src is not None and src[0] in ("slice", "iter", "reversed"):
+            src = src[1]
+        if src is not None and src[0] == "comp" and src[4] is not None:
+            return any(says(k, pol, ("attr", src[3], "state")) for k, pol in src[4])
+        return False
+
+    def queue_nonempty(self, q, facts) -> bool:
+        ln = ("pcall", ("global", "len"), (q,))
+        for k, pol in facts:
+            k = _strip(k)
+            if k in (q, ln):
+                if pol:
+                    return True
+            elif k[0] == "cmp" and k[1] == "lt":
+                if (pol and k[2] == ("const", 0) and k[3] == ln) or (not pol and k[2] == ln and k[3] == ("const", 1)):
+                    return True
+            elif k[0] == "cmp" and k[1] == "eq" and not pol and {k[2], k[3]} == {ln, ("const", 0)}:
+                return True
+        return False
+
+    # ---- effects
+    def other(self, st, c, text: str) -> None:
+        self.event(st, "OTHER", c, False, text)
+
+    def on_store(self, t, base, name, v, st) -> None:
+        b = _strip(base)
+        if v is not None and self.leaks(v):
+            self.other(st, enclosing_stmt(t), "the raw endpoint / its send method is stored in an object")
+        elif isinstance(t, ast.Attribute) and b == _SELF and name in ("settings", "send_queue", "endpoint"):
+            self.other(st, enclosing_stmt(t), f"store to self.{name}")
+        elif isinstance(t, ast.Subscript) and (b == _T_SETTINGS or b[0] == "queue"):
+            self.other(st, enclosing_stmt(t), "store into " + ("self.settings" if b == _T_SETTINGS else "self.send_queue"))
+
+    def on_opaque_call(self, c, st) -> None:
+        ch = chain(c.func) or ""
+        if ch in _PURE or ch in _PURE_BUILTINS or ch.startswith(_LOG_PREFIX):
+            return
+        self.other(st, c, ch)
+
+    def on_unknown_call(self, c, fv, args, kwargs, st):
+        self.other(st, c, _vchain(_strip(fv)) or chain(c.func) or "?")
+        return super().on_unknown_call(c, fv, args, kwargs, st)
+
+    def impure(self, st):
+        st.epoch += 1
+        st.qver += 1
+        st.heap.clear()
+
+    def leaks(self, v) -> bool:
+        """the value is / contains the raw endpoint or its bound send method"""
+        v = _strip(v) if type(v) is tuple else v
+        if v == _T_SOCKET or v == ("attr", _T_SOCKET, "send"):
+            return True
+        return type(v) is tuple and v[:1] != ("const",) and any(self.leaks(x) for x in v if type(x) is tuple)
+
+    def on_call(self, c, fv, args, kwargs, st):  # noqa: C901, PLR0911, PLR0912
+        if any(self.leaks(a) for a in list(args) + list((kwargs or {}).values())) and not (fv[0] == "closure" or (fv[0] == "attr" and _strip(fv[1]) == _SELF)):
+            self.other(st, c, "the raw endpoint / its send method is handed to " + (_vchain(_strip(fv)) or chain(c.func) or "a call"))
+        if fv[0] != "attr":
+            return None
+        recv, name = _strip(fv[1]), fv[2]
+        ch = _vchain(recv)
+        if ch is not None and (ch in _LOG_ROOTS or ch.startswith(tuple(r + "." for r in _LOG_ROOTS))):
+            return [(_NONE, st)]
+        facts = tuple(st.facts.items())
+        if recv == _T_SOCKET and name == "send":
+            a, p = _call_arg(args, kwargs, 0, "socket_address"), _call_arg(args, kwargs, 1, "packet")
+            why = []
+            if a is None or _strip(a) != self.addr or p is None or _strip(p) != self.packet:
+                why.append("not the packet / address send() was given")
+            if self.switch(facts) != {OFF}:
+                why.append("the anonymity switch of the packet is not known to be off")
+            self.event(st, "RAW", c, not why, "; ".join(why))
+            self.impure(st)
+            return [(self.unknown(), st)]
+        if name == "send_data":
+            vals = [_call_arg(args, kwargs, i, n) for i, n in enumerate(("target", "circuit_id", "dest_address", "source_address", "data"))]
+            target, cid, dest, origin, _ = [_strip(v) if v is not None else None for v in vals]
+            why = []
+            if recv != _T_OVERLAY:
+                why.append("receiver")
+            circ = None
+            if target is not None and target[0] == "attr" and target[2] == "address" and target[1][0] == "attr" and target[1][2] == "hop":
+                circ = target[1][1]
+            if circ is None:
+                why.append("first_hop")
+            else:
+                if cid != ("attr", circ, "circuit_id"):
+                    why.append("circuit_id")
+                if not self.pick_ok(circ):
+                    why.append("source")
+                if not self.ready(circ, facts):
+                    why.append("ready")
+                if why and circ[0] in ("loopvar", "unknown", "local"):
+                    why.append("(the circuit value is not tracked through this loop / container)")
+            if origin not in (("tuple", (("const", "0.0.0.0"), ("const", 0))), ("const", ("0.0.0.0", 0))) or dest is None or dest[0] == "const":
+                why.append("args")
+            if self.switch(facts) != {ON}:
+                why.append("switch")
+            self.event(st, "TUNNEL", c, not why, "not established: " + ", ".join(why) if why else "")
+            self.impure(st)
+            return [(self.unknown(), st)]
+        if name in ("find_circuits", "create_circuit"):
+            st.effects.append("CIRCUIT")
+            self.impure(st)
+            kw = tuple(sorted(kwargs.items(), key=lambda kv: kv[0])) if kwargs is not None else None
+            return [(("call", self.uid(), _strip(fv), tuple(args), kw), st)]
+        if recv[0] == "queue":
+            if name == "append":
+                self.event(st, "QUEUE", c, self.switch(facts) == {ON}, "a packet is queued although its anonymity switch is not known to be on")
+                self.impure(st)
+                return [(_NONE, st)]
+            if name in ("popleft", "pop"):
+                self.event(st, "DRAIN", c, self.queue_nonempty(recv, facts) or _index_error_caught(c), "the queue is not known to be non-empty")
+                self.impure(st)
+                return [(("qitem", self.uid()), st)]
+            if name in ("copy", "count", "index", "__len__"):
+                return None
+            self.other(st, c, f"self.send_queue.{name}")
+            self.impure(st)
+            return [(self.unknown(), st)]
+        if recv == _T_SETTINGS:
+            if name == "get":
+                return [(("pcall", ("attr", _T_SETTINGS, "get"), tuple(args), 0), st)]
+            if name in ("keys", "values", "items", "copy", "__contains__", "__getitem__"):
+                return None
+            self.other(st, c, f"self.settings.{name}")
+            return [(self.unknown(), st)]
+        return None
+
+
+class _TablePaths(_Interp):
+    """TunnelEndpoint.set_anonymity on symbolic paths: what is written into the anonymity table, on which paths."""
+
+    def __init__(self, ctx, fi, te) -> None:
+        super().__init__(ctx, fi)
+        self.te = te
+
+    def follow(self, fi) -> bool:
+        return fi.cls is self.te and fi.node is not self.top.node and fi.name != "send"
+
+    def read_field(self, base, name, st):
+        if _strip(base) == _SELF and name == "settings":
+            return ("attr", _SELF, "settings", 0)
+        return None
+
+    def put(self, st, node, key, value) -> None:
+        ps = self.top.params()
+        ok = key is not None and value is not None and _strip(key) == ("param", ps[1]) and _strip(value) == ("param", ps[2])
+        self.event(st, "PUT" if ok else "OTHERPUT", node, ok, "the table is changed, but not by table[prefix] = enable")
+
+    def on_store(self, t, base, name, v, st) -> None:
+        b = _strip(base)
+        if isinstance(t, ast.Subscript) and b == _T_SETTINGS:
+            self.put(st, enclosing_stmt(t), name, v)
+        elif isinstance(t, ast.Attribute) and b == _SELF and name == "settings":
+            self.put(st, enclosing_stmt(t), None, None)
+
+    def on_call(self, c, fv, args, kwargs, st):
+        if fv[0] != "attr" or _strip(fv[1]) != _T_SETTINGS:
+            return None
+        name = fv[2]
+        if name == "__setitem__" and len(args) == 2 and _STAR not in args:
+            self.put(st, c, args[0], args[1])
+        elif name == "update" and len(args) == 1 and not kwargs and args[0][0] == "dict" and len(args[0][1]) == 1:
+            self.put(st, c, args[0][1][0][0], args[0][1][0][1])
+        elif name == "update" and len(args) == 1 and not kwargs and args[0][0] in ("list", "tuple") and len(args[0][1]) == 1 \
+                and args[0][1][0][0] in ("list", "tuple") and len(args[0][1][0][1]) == 2:
+            self.put(st, c, args[0][1][0][1][0], args[0][1][0][1][1])
+        elif name in ("get", "keys", "values", "items", "copy", "__contains__", "__getitem__"):
+            return None
+        else:
+            self.put(st, c, None, None)
+        return [(_NONE, st)]
+
+
+def _set_anonymity_paths(ctx, te, sa):
+    """(ok, interpreter): on every path that returns, set_anonymity stored `enable` under `prefix` and changed nothing else in the table"""
+    it = _TablePaths(ctx, sa, te)
+    outs = it.start()
+    ok = bool(outs) and not any(e.kind == "OTHERPUT" for e in it.all_events)
+    for kind, st in outs:
+        if kind == "return" and "PUT" not in st.effects:
+            ok = False
+    return ok and any(kind == "return" for kind, _ in outs), it
+
+
+class _DeliverPaths(_Interp):
+    """TunnelEndpoint.notify_listeners on symbolic paths: which listeners are handed the packet."""
+
+    def __init__(self, ctx, fi, te) -> None:
+        super().__init__(ctx, fi)
+        self.te = te
+        self.from_tunnel = ("param", fi.params()[2])
+        self.hits = []
+
+    def follow(self, fi) -> bool:
+        return fi.cls is self.te and fi.node is not self.top.node and fi.name != "send"
+
+    def is_anon(self, v, listener) -> bool:
+        while v[0] == "truth":
+            v = v[1]
+        if v[0] == "pcall" and v[1] == ("global", "getattr") and len(v[2]) == 3:
+            a = v[2]
+            return a[0] == listener and a[1] == ("const", "anonymize") and a[2][0] == "const" and not a[2][1]
+        return False
+
+    def is_ft(self, v) -> bool:
+        while v[0] == "truth":
+            v = v[1]
+        return v == self.from_tunnel
+
+    def decided(self, facts, listener) -> bool:
+        """the tests say: getattr(listener, "anonymize", False) has the truth value of from_tunnel"""
+        eqs, avs, tvs = set(), set(), set()
+        for k, pol in facts:
+            if k[0] == "cmp" and k[1] in ("eq", "is") and ((self.is_anon(k[2], listener) and self.is_ft(k[3])) or (self.is_anon(k[3], listener) and self.is_ft(k[2]))):
+                eqs.add(pol)
+            elif self.is_anon(k, listener):
+                avs.add(pol)
+            elif self.is_ft(k):
+                tvs.add(pol)
+            elif k[0] == "cmp" and k[1] in ("eq", "is") and pol:
+                for x, y in ((k[2], k[3]), (k[3], k[2])):
+                    if y[0] == "const" and isinstance(y[1], bool):
+                        if self.is_anon(x, listener):
+                            avs.add(y[1])
+                        elif self.is_ft(x):
+                            tvs.add(y[1])
+        if len(eqs) > 1 or len(avs) > 1 or len(tvs) > 1:
+            return False
+        eq, a, t = next(iter(eqs), None), next(iter(avs), None), next(iter(tvs), None)
+        if eq is False or (a is not None and t is not None and a != t):
+            return False
+        return eq is True or (a is not None and a == t)
+
+    def on_call(self, c, fv, args, kwargs, st):
+        if fv[0] == "attr" and fv[2] == "_deliver_later":
+            listener = _call_arg(args, kwargs, 0, "listener")
+            listener = _strip(listener) if listener is not None else None
+            facts = [(_strip(k), p) for k, p in st.facts.items()]
+            ok = listener is not None and self.decided(facts, listener)
+            if not ok and listener is not None and listener[0] in ("elem", "sub"):
+                src = listener[1]
+                while src[0] in ("slice", "iter", "reversed"):
+                    src = src[1]
+                if src[0] == "comp" and src[4] is not None:     # [l for l in ... if getattr(l, "anonymize", False) == from_tunnel]
+                    ok = self.decided(facts + list(src[4]), src[3])
+            self.hits.append((st.frames[-1].fi, c, ok))
+            st.epoch += 1
+            return [(_NONE, st)]
+        return None
+
+
+def _deliver_paths(ctx, te, nl) -> dict:
+    it = _DeliverPaths(ctx, nl, te)
+    it.start()
+    out = {}
+    for hf, c, ok in it.hits:
+        prev = out.get(id(c))
+        out[id(c)] = (hf if not isinstance(hf, _LambdaInfo) else nl, c, ok and (prev is None or prev[2]))
+    return out
+
+
+class _ExitFlagsPaths(_Interp):
+    def follow(self, fi) -> bool:
+        return fi.cls is self.cls and fi.node is not self.top.node and _is_getter(fi)
+
+
+def _exit_flags_paths(ctx, fi):
+    """
+    Circuit.exit_flags on symbolic paths -> (verdict, detail): True = every flags value it returns is read from the last hop and some
+    path returns one; False = a returned flags value belongs to a recognisably different hop; None = undecided.
+    """
+    it = _ExitFlagsPaths(ctx, fi)
+    outs = it.start()
+    lists = (("attr", _SELF, "hops"), ("attr", _SELF, "_hops"))
+
+    def is_len(v) -> bool:
+        return v[0] == "pcall" and v[1] == ("global", "len") and len(v[2]) == 1 and v[2][0] in lists
+
+    def last(h):
+        if h[0] == "sub":
+            base, i = h[1], h[2]
+            rev = False
+            while base[0] in ("iter", "reversed") or (base[0] == "pcall" and base[1] in (("global", "list"), ("global", "tuple")) and len(base[2]) == 1):
+                rev = rev != (base[0] == "reversed")
+                base = base[1] if base[0] != "pcall" else base[2][0]
+            if base[0] == "slice" and base[1] in lists and base[2] == ("const", -1) and base[3] == _NONE and base[4] in (_NONE, ("const", 1)) and not rev:
+                return True if i in (("const", 0), ("const", -1)) else None
+            if base[0] == "slice" and base[1] in lists and base[2] in (_NONE, ("const", 0)) and base[4] in (_NONE, ("const", 1)) and not rev \
+                    and i == ("const", 0):
+                return False
+            if base not in lists:
+                return None
+            if i[0] == "const" and isinstance(i[1], int):
+                return i[1] == (0 if rev else -1)
+            if not rev and i[0] == "binop" and i[1] == "Sub" and is_len(i[2]) and i[3] == ("const", 1):
+                return True
+            return None
+        if h in (("attr", _SELF, "hop"), ("attr", _SELF, "unverified_hop")):
+            return False
+        return None
+    seen_flags = False
+    for kind, st in outs:
+        if kind != "return":
+            continue
+        v = _strip(st.ret)
+        while v[0] == "pcall" and v[1] in (("global", "list"), ("global", "tuple")) and len(v[2]) == 1:
+            v = v[2][0]
+        if v[0] == "attr" and v[2] == "flags":
+            r = last(v[1])
+            if r is None:
+                return None, f"which hop `{_show(v)}` is read from"
+            if r is False:
+                return False, _show(v)
+            seen_flags = True
+        elif v[0] == "const" or (v[0] in ("list", "tuple") and not v[1]):
+            continue
+        else:
+            return None, f"what `{_show(v)}` is"
+    return (True, "") if seen_flags else (None, "no path returns the flags of a hop")
+
+
+class _FindPaths(_Interp):
+    """TunnelCommunity.find_circuits on symbolic paths: which circuits are put into the result, under which tests."""
+
+    def __init__(self, ctx, fi) -> None:
+        super().__init__(ctx, fi)
+        self.includes = []      # (node, function, element value, facts)
+
+    def follow(self, fi) -> bool:
+        return fi.cls is not None and fi.node is not self.top.node and _is_getter(fi)
+
+    def include(self, node, value, st) -> None:
+        if value[0] not in ("elem", "sub", "loopvar"):
+            return              # not an element of a collection (a truth value computed by an inner comprehension, ...)
+        self.includes.append((node, st.frames[-1].fi, _strip(value), tuple((_strip(k), p) for k, p in st.facts.items())))
+
+    def on_include(self, comp, value, st) -> None:
+        self.include(comp, value, st)
+
+    def on_call(self, c, fv, args, kwargs, st):
+        if fv[0] == "attr" and fv[2] in ("append", "add", "appendleft") and _local_container(fv[1]) and len(args) == 1 and args[0] is not _STAR:
+            self.include(c, args[0], st)
+        return None
+
+
+def _circuit_filter(ctx, fi):  # noqa: C901, PLR0912
+    """
+    [(node, function, ok_flags, ok_hops)] for every circuit find_circuits puts into its result; ok_*: True = the tests on the path
+    establish the requested constraint, False = all tests on the path about that parameter are understood and none establishes it,
+    None = undecided.
+    """
+    it = _FindPaths(ctx, fi)
+    outs = it.start()
+    for kind, st in outs:                        # a lazily filtered result is produced when the caller iterates it
+        if kind == "return" and st.ret[0] in ("filtered", "gen"):
+            for x, s2 in it.elements(st.ret, st.fork()):
+                it.include(fi.node, x, s2)
+    ps = fi.params()
+    if "exit_flags" not in ps or "hops" not in ps:
+        raise _Und("find_circuits has no exit_flags / hops parameter")
+    flags, hops = ("param", "exit_flags"), ("param", "hops")
+
+    def mentions(v, what) -> bool:
+        return v == what or (type(v) is tuple and any(mentions(x, what) for x in v))
+
+    def as_set(v, inner) -> bool:
+        return v == inner or (v[0] == "pcall" and v[1] in (("global", "set"), ("global", "frozenset")) and v[2] == (inner,))
+
+    out = []
+    for node, hf, elem, facts in it.includes:
+        cflags, chops = ("attr", elem, "exit_flags"), ("attr", elem, "goal_hops")
+        f_ok, f_known, h_ok, h_known = False, True, False, True
+        for k, pol in facts:
+            if mentions(k, flags):
+                if k[0] == "cmp" and k[1] == "is" and {k[2], k[3]} == {flags, _NONE}:
+                    f_ok = f_ok or pol
+                elif k == flags:
+                    f_ok = f_ok or not pol          # nothing requested
+                elif k[0] == "cmp" and k[1] == "lt" and as_set(k[2], cflags) and as_set(k[3], flags) and k[2] != cflags:
+                    f_ok = f_ok or not pol          # not (set(c.exit_flags) < set(wanted))  <=>  set(wanted) <= set(c.exit_flags)
+                elif k[0] == "cmp" and k[1] == "lt" and as_set(k[2], flags) and as_set(k[3], cflags) and k[2] != flags:
+                    f_ok = f_ok or pol              # proper subset
+                elif k[0] == "cmp" and k[1] == "eq" and ((as_set(k[2], flags) and as_set(k[3], cflags)) or (as_set(k[3], flags) and as_set(k[2], cflags))) \
+                        and flags not in (k[2], k[3]):
+                    f_ok = f_ok or pol              # the same set
+                elif k[0] == "binop" and k[1] == "Sub" and as_set(k[2], flags) and as_set(k[3], cflags) and k[2] != flags:
+                    f_ok = f_ok or not pol          # nothing wanted is missing
+                elif k[0] == "cmp" and k[1] == "eq" and {k[2], k[3]} == {flags, _NONE}:
+                    f_ok = f_ok or pol
+                elif k[0] == "pcall" and k[1] in (("global", "all"), ("global", "any")) and len(k[2]) == 1 and k[2][0][0] == "comp" \
+                        and len(k[2][0]) > 5 and k[2][0][5] is not None and _strip(k[2][0][2]) == flags:
+                    comp = k[2][0]          # all(f in c.exit_flags for f in exit_flags) / not any(f not in c.exit_flags for f in exit_flags)
+                    elt, inside = it.norm(comp[5], True)
+                    if elt[0] == "cmp" and elt[1] == "in" and elt[2] == comp[3] and as_set(elt[3], cflags):
+                        if k[1][1] == "all" and inside:
+                            f_ok = f_ok or pol
+                        elif k[1][1] == "any" and not inside:
+                            f_ok = f_ok or not pol
+                    else:
+                        f_known = False
+                elif k[0] in ("binop", "cmp") and {True} == {as_set(x, flags) or as_set(x, cflags) for x in k[2:4]}:
+                    pass                            # another relation between the two sets (overlap, superset ...): understood, establishes nothing
+                elif k[0] == "pcall" and k[1][0] == "attr" and k[1][2] == "issubset" and as_set(k[1][1], flags) and k[1][1] != flags \
+                        and len(k[2]) == 1 and as_set(k[2][0], cflags):
+                    f_ok = f_ok or pol
+                elif k[0] == "pcall" and k[1][0] == "attr" and k[1][2] == "issuperset" and as_set(k[1][1], cflags) and k[1][1] != cflags \
+                        and len(k[2]) == 1 and as_set(k[2][0], flags):
+                    f_ok = f_ok or pol
+                else:
+                    f_known = False
+            if mentions(k, hops):
+                if k[0] == "cmp" and k[1] == "is" and {k[2], k[3]} == {hops, _NONE}:
+                    h_ok = h_ok or pol
+                elif k[0] == "cmp" and k[1] == "eq" and {k[2], k[3]} == {hops, chops}:
+                    h_ok = h_ok or pol
+                elif k[0] == "cmp" and k[1] == "eq" and {k[2], k[3]} == {hops, _NONE}:
+                    h_ok = h_ok or pol
+                elif k[0] == "cmp" and k[1] == "in" and k[2] == hops and k[3][0] in ("tuple", "list", "set") and set(k[3][1]) <= {_NONE, chops}:
+                    h_ok = h_ok or pol              # hops in (None, c.goal_hops)
+                elif k[0] == "cmp" and {k[2], k[3]} == {hops, chops}:
+                    pass                            # an ordering test between the two lengths: understood, establishes nothing
+                else:
+                    h_known = False
+        out.append((node, hf, True if f_ok else (False if f_known else None), True if h_ok else (False if h_known else None)))
+
+    def worst(vals):
+        return False if False in vals else None if None in vals else True
+    sites = {}
+    for node, hf, f, h in out:
+        sites.setdefault(id(node), (node, hf, [], []))
+        sites[id(node)][2].append(f)
+        sites[id(node)][3].append(h)
+    return [(node, hf, worst(fs), worst(hs)) for node, hf, fs, hs in sites.values()]
+
+
+def _index_error_caught(node) -> bool:
+    """the node lies in the body of a try that handles IndexError (an empty queue ends the drain by the exception)"""
+    cur = node
+    for a in ancestors(node):
+        if isinstance(a, (ast.FunctionDef, ast.AsyncFunctionDef, ast.Lambda)):
+            return False
+        if isinstance(a, ast.Try) and any(cur is x or any(cur is y for y in ast.walk(x)) for x in a.body):
+            for h in a.handlers:
+                ts = [h.type] if not isinstance(h.type, ast.Tuple) else list(h.type.elts)
+                if h.type is None or any(chain(t) in ("IndexError", "LookupError", "Exception", "BaseException") for t in ts):
+                    return True
+        cur = a
+    return False
+
+
+class _SendVerdict:
+    def __init__(self) -> None:
+        self.sites = []         # (kind, fi, node, ok, why, facts)
+        self.paths = []         # (switch, effects, ok)
+        self.n_paths = 0
+        self.entered = set()    # id of every function node executed (send, its helpers, closures)
+
+    @property
+    def ok(self) -> bool:
+        kinds = {s[0] for s in self.sites}
+        return all(s[3] for s in self.sites) and all(p[2] for p in self.paths) and "RAW" in kinds and "TUNNEL" in kinds and self.n_paths >= 5
+
+
+def _send_paths(ctx, te, fi) -> _SendVerdict:
+    it = _SendPaths(ctx, fi, te)
+    outs = it.start()
+    v = _SendVerdict()
+    by_site = {}
+    for e in it.all_events:
+        by_site.setdefault((e.kind, id(e.node)), []).append(e)
+    for (kind, _), evs in by_site.items():
+        bad = [e for e in evs if not e.ok]
+        e0 = bad[0] if bad else evs[0]
+        v.sites.append((kind, e0.fi, e0.node, not bad, e0.why, e0.facts))
+    seen = {}
+    for kind, st in outs:
+        if kind != "return":
+            continue
+        v.n_paths += 1
+        sw = it.switch(st.facts.items())
+        eff = {x for x in st.effects if x in ("RAW", "TUNNEL", "QUEUE")}
+        ok = (sw == {ON} and "RAW" not in eff) or (sw == {OFF} and not (eff & {"TUNNEL", "QUEUE"}))
+        key = ("/".join(sorted(sw)) or "undecided", "+".join(sorted(eff)) or "DROP")
+        if key not in seen:
+            seen[key] = ok
+            v.paths.append((key[0], key[1], ok))
+    v.entered = set(it.entered)
+    return v
+
+
+def _send_symbolic(ctx):
+    """(verdict | None, reason it is undecided | None) of the symbolic analysis of TunnelEndpoint.send, computed once per run"""
+    got = getattr(ctx, "_c07_send_symbolic", None)
+    if got is None:
+        te = ctx.repo.cls("TunnelEndpoint", EP)
+        fi = ctx.repo.method("TunnelEndpoint", "send", EP)
+        try:
+            got = (_send_paths(ctx, te, fi), None)
+        except _Und as u:
+            got = (None, u)
+        ctx._c07_send_symbolic = got
+    return got
+
+
+def _emit_send_verdict(ctx, fi, v: _SendVerdict) -> None:
+    text = {"RAW": ("RAW: endpoint.send only for the very packet / address of send() with its anonymity switch off",
+                    "a packet of an anonymized overlay can be handed to the raw socket"),
+            "TUNNEL": ("TUNNEL: send_data only over a READY circuit from find_circuits(exit_flags=[EXIT_IPV8], hops=self.hops)",
+                       "tunnel send is not restricted to a ready IPv8-exit circuit of the configured length"),
+            "QUEUE": ("QUEUE: only packets of anonymized overlays wait for a circuit", "queue append outside the anonymized branch"),
+            "DRAIN": ("queue drained only while it is not empty", "drain is not guarded by the send queue being non-empty"),
+            "OTHER": ("effect is RAW/TUNNEL/QUEUE/circuit management", "TunnelEndpoint.send has an unclassified effect")}
+    for kind, sfi, node, ok, why, facts in v.sites:
+        desc, reason = text[kind]
+        shown = [f"{'' if p else 'not '}{_show(k)}" for k, p in facts][:12]
+        ctx.check(ok, "send-classification", sfi if hasattr(sfi, "where") and not isinstance(sfi, _LambdaInfo) else fi, node,
+                  desc + " (symbolic paths)", f"{reason} ({why})" if why else reason, shown)
+    for sw, eff, ok in v.paths:
+        ctx.instance("send-classification.paths", fi.where, f"path anonymity={sw} effects={eff}", ok=ok)
+        if not ok:
+            ctx.violation("send-classification.paths", fi, fi.node, f"a path of TunnelEndpoint.send with anonymity switch={sw} has effects {eff}")
+    ctx.extra["send_paths"] = {f"anonymize={sw} effect={eff}": 1 for sw, eff, _ in v.paths}
+    ctx.floor("send-classification.paths", v.n_paths, 5)
+
+
+def _show(v) -> str:
+    v = _strip(v)
+    ch = _vchain(v)
+    if ch is not None:
+        return ch
+    tag = v[0]
+    if tag == "const":
+        return repr(v[1])
+    if tag == "cmp":
+        return f"{_show(v[2])} {v[1]} {_show(v[3])}"
+    if tag == "pcall":
+        return f"{_show(v[1])}({', '.join(_show(x) for x in v[2] if type(x) is tuple and x and isinstance(x[0], str))})"
+    if tag == "slice":
+        return f"{_show(v[1])}[{'' if v[2] == _NONE else _show(v[2])}:{'' if v[3] == _NONE else _show(v[3])}]"
+    if tag == "sub":
+        return f"{_show(v[1])}[{_show(v[2])}]"
+    if tag in ("elem", "call", "unknown", "qitem", "loopvar", "queue", "comp"):
+        return f"<{tag}{'' if len(v) < 2 or not isinstance(v[1], (int, str)) else ' ' + str(v[1])}>"
+    if tag in ("truth", "not"):
+        return f"{tag}({_show(v[1])})"
+    if tag == "attr":
+        return f"{_show(v[1])}.{v[2]}"
+    return f"<{tag}>"
+
+
+class _Rec:
+    """Stands in for the rule context: records what a rule would report, to be replayed on the real context or discarded."""
+
+    def __init__(self, ctx) -> None:
+        self._ctx = ctx
+        self.repo = ctx.repo
+        self.extra = {}
+        self.ops = []
+        self.bad = 0
+
+    def cfg(self, fi):
+        return self._ctx.cfg(fi)
+
+    def check(self, cond, *a, **k) -> bool:
+        self.ops.append(("check", (cond, *a), k))
+        self.bad += not cond
+        return bool(cond)
+
+    def instance(self, *a, **k) -> None:
+        self.ops.append(("instance", a, k))
+        self.bad += k.get("ok", True) is False
+
+    def violation(self, *a, **k) -> None:
+        self.ops.append(("violation", a, k))
+        self.bad += 1
+
+    def anchor(self, value, what: str):
+        return self._ctx.anchor(value, what)
+
+    def floor(self, rule: str, found: int, minimum: int) -> None:
+        self.ops.append(("floor", (rule, found, minimum), {}))
+        if found < minimum:
+            raise AnalysisError(f"instance floor not met for {self._ctx.rule_id(rule)}: found {found} < confirmed {minimum}")
+
+    def replay(self) -> None:
+        for op, a, k in self.ops:
+            getattr(self._ctx, op)(*a, **k)
+        self._ctx.extra.update(self.extra)
+
+
 # ------------------------------------------------------------------------------------ rules
-def rule_send(ctx: Ctx) -> None:  # noqa: C901, PLR0912, PLR0915
+def _send_reviewed(ctx) -> None:  # noqa: C901, PLR0912, PLR0915
+    """TunnelEndpoint.send in (a local variation of) the reviewed shape: dominance facts per effect site + path classification"""
     repo = ctx.repo
     te = repo.cls("TunnelEndpoint", EP)
     fi = repo.method("TunnelEndpoint", "send", EP)
@@ -549,29 +2673,178 @@ def rule_send(ctx: Ctx) -> None:  # noqa: C901, PLR0912, PLR0915
         raise AnalysisError(undecided[0])
 
 
+def rule_send(ctx: Ctx) -> None:
+    """
+    Two analyses of TunnelEndpoint.send, each sufficient on its own: the site/dominance analysis of the reviewed shape, and - when
+    that does not recognise the function (or objects) - symbolic execution of every path through send, its helpers and closures.
+    A violation is reported only if neither establishes the classification.
+    """
+    fi = ctx.repo.method("TunnelEndpoint", "send", EP)
+    rec = _Rec(ctx)
+    err = None
+    try:
+        _send_reviewed(rec)
+    except AnalysisError as e:
+        err = e
+    except (IndexError, KeyError, AttributeError, TypeError, ValueError) as e:
+        err = AnalysisError(f"anchor-lost: reviewed shape of TunnelEndpoint.send ({type(e).__name__})")
+    if err is None and not rec.bad and not _FORCE_PATHS:
+        rec.replay()
+        return
+    verdict, und = _send_symbolic(ctx)
+    if verdict is not None and verdict.ok:
+        _emit_send_verdict(ctx, fi, verdict)
+        return
+    if _FORCE_PATHS:
+        if verdict is None:
+            raise AnalysisError(f"undecided: symbolic paths of TunnelEndpoint.send: {und}")
+        _emit_send_verdict(ctx, fi, verdict)
+        return
+    if verdict is None:
+        # neither analysis applies to this shape: what the site analysis may have found is not reliable either
+        raise AnalysisError(f"undecided: TunnelEndpoint.send: {err or 'the reviewed shape is not recognised'}; symbolic paths: {und}")
+    if err is None:
+        rec.replay()            # the findings of the site analysis, as before
+        return
+    failing = [sx for sx in verdict.sites if not sx[3]]
+    if failing and all("not tracked" in sx[4] for sx in failing) and all(p[2] for p in verdict.paths):
+        raise AnalysisError(f"undecided: TunnelEndpoint.send: {err}; symbolic paths: {failing[0][4]}")
+    if failing or any(not p[2] for p in verdict.paths):
+        _emit_send_verdict(ctx, fi, verdict)
+        return
+    raise AnalysisError(f"{err}; symbolic paths: no raw / tunnel send reached")
+
+
+def _bounded_deque(repo, te, fi, v, depth: int = 3) -> bool:
+    """the expression builds deque(..., maxlen=<positive constant>) - directly, through a local, or through a method of the class that returns one"""
+    v = strip_cast(v) if v is not None else None
+    if isinstance(v, ast.Name):
+        v = resolve(fi, v)
+    if isinstance(v, ast.IfExp):
+        return _bounded_deque(repo, te, fi, v.body, depth) and _bounded_deque(repo, te, fi, v.orelse, depth)
+    if not isinstance(v, ast.Call):
+        return False
+    if (chain(v.func) or "").split(".")[-1] == "deque":
+        ml = arg(v, 1, "maxlen")
+        mlv = repo.resolve_const(fi.module, ml, fi.cls) if ml is not None else None
+        return isinstance(mlv, int) and not isinstance(mlv, bool) and mlv > 0
+    ch = chain(v.func) or ""
+    if depth > 0 and ch.startswith(("self.", "cls.")) and ch.count(".") == 1 and ch.split(".")[1] in te.methods:
+        hf = te.methods[ch.split(".")[1]]
+        rets = [r for r in walk_no_nested(hf.node) if isinstance(r, ast.Return)]
+        return bool(rets) and not hf.is_async and not _is_generator(hf.node) \
+            and all(r.value is not None and _bounded_deque(repo, te, hf, r.value, depth - 1) for r in rets)
+    return False
+
+
+def _only_from_init(repo, te, fi, depth: int = 3) -> bool:
+    """__init__, or a private method that nothing but __init__ (through such methods) mentions"""
+    if fi.name == "__init__":
+        return True
+    if depth <= 0 or not fi.name.startswith("_") or fi.name.startswith("__"):
+        return False
+    found = False
+    for m in repo.modules.values():
+        for n in ast.walk(m.tree):
+            if (isinstance(n, ast.Attribute) and n.attr == fi.name) or (isinstance(n, ast.Constant) and n.value == fi.name):
+                f = repo.function_of(n)
+                if f is None or f.cls is not te or not _only_from_init(repo, te, f, depth - 1):
+                    return False
+                found = True
+    return found
+
+
 def rule_queue(ctx: Ctx) -> None:
     repo = ctx.repo
     te = repo.cls("TunnelEndpoint", EP)
     writes = []
     for fi in te.methods.values():
-        for st, t in stores(fi, "self.send_queue"):
+        for st, _ in stores(fi, "self.send_queue"):
             writes.append((fi, st))
     ctx.anchor(writes, "send_queue assignment")
     for fi, st in writes:
-        v = strip_cast(st.value) if getattr(st, "value", None) is not None else None
-        if isinstance(v, ast.Name):
-            v = resolve(fi, v)
-        ok = fi.name == "__init__" and isinstance(v, ast.Call) and (chain(v.func) or "").split(".")[-1] == "deque"
-        ml = arg(v, 1, "maxlen") if ok else None
-        mlv = repo.resolve_const(fi.module, ml, fi.cls) if ml is not None else None
-        ok = ok and isinstance(mlv, int) and not isinstance(mlv, bool) and mlv > 0
+        ok = _only_from_init(repo, te, fi) and _bounded_deque(repo, te, fi, getattr(st, "value", None))
         ctx.check(ok, "bounded-queue", fi, st, "send_queue = deque(maxlen=<positive constant>) assigned once in __init__",
                   "the queue of packets waiting for a circuit is unbounded or rebound")
-    ctx.check(len([1 for fi, _ in writes if fi.name == "__init__"]) <= 1, "bounded-queue", te.where, "send_queue",
+    ctx.check(len([1 for fi, _ in writes if _only_from_init(repo, te, fi)]) <= 1, "bounded-queue", te.where, "send_queue",
               "send_queue assigned once", "the queue of packets waiting for a circuit is rebound")
     for m, fi, a in repo.attribute_uses("send_queue"):
         ctx.check(fi is not None and fi.cls is te, "bounded-queue", fi or m.relpath, a, "send_queue used only inside TunnelEndpoint",
                   "send_queue is accessed from outside TunnelEndpoint")
+
+
+def _referenced_only_from(ctx, te, fi, entered: set) -> bool:
+    """every mention of the method's name (attribute, bare name in a class-level table, string for getattr) lies in a function of `entered`"""
+    for m in ctx.repo.modules.values():
+        for n in ast.walk(m.tree):
+            named = (isinstance(n, ast.Attribute) and n.attr == fi.name) or (isinstance(n, ast.Name) and n.id == fi.name) \
+                or (isinstance(n, ast.Constant) and n.value == fi.name)
+            if not named:
+                continue
+            f = ctx.repo.function_of(n)
+            if f is not None and id(f.node) in entered:
+                continue
+            if f is None and any(a is te.node for a in ancestors(n)):
+                continue                    # a class-level table of TunnelEndpoint
+            return False
+    return True
+
+
+def _table_symbolic(ctx, te):
+    """(ok | None when undecided, interpreter | None) of set_anonymity on symbolic paths, computed once per run"""
+    got = getattr(ctx, "_c07_table_symbolic", None)
+    if got is None:
+        try:
+            got = _set_anonymity_paths(ctx, te, te.methods["set_anonymity"])
+        except _Und:
+            got = (None, None)
+        ctx._c07_table_symbolic = got
+    return got
+
+
+def _raw_site_judged_in_send(ctx, te, fi, c) -> bool:
+    """
+    A raw send outside the body of TunnelEndpoint.send is still governed by the anonymity switch when it sits in a closure of send
+    or in a private helper that only send (and what send runs) can reach - through a call, a dispatch table or a bound-method
+    reference - and the symbolic analysis of send judged every execution of this very site (send-classification reports the rest).
+    """
+    verdict, _ = _send_symbolic(ctx)
+    if verdict is None or id(fi.node) not in verdict.entered:
+        return False
+    judged = [sx for sx in verdict.sites if sx[0] == "RAW" and sx[2] is c]
+    if not judged or not all(sx[3] for sx in judged):
+        return False
+    if enclosing_function(fi.node) is not None:
+        return True                         # a closure of a function send runs
+    if fi.cls is not te or not fi.name.startswith("_") or fi.name.startswith("__"):
+        return False
+    return _referenced_only_from(ctx, te, fi, verdict.entered)
+
+
+def _kept_local(ctx, a, fi) -> bool:
+    """
+    `self.endpoint.send` mentioned without being called: acceptable only when the bound method merely lands in a local name (or is
+    selected by a conditional expression / literal table that lands in one or is called on the spot) of a function that the
+    symbolic analysis of send executed and judged - every call through that local is then a judged RAW effect.
+    """
+    verdict, _ = _send_symbolic(ctx)
+    if verdict is None or not verdict.ok or id(fi.node) not in verdict.entered:
+        return False
+    cur = a
+    for p_ in ancestors(a):
+        if isinstance(p_, (ast.IfExp, ast.BoolOp, ast.Tuple, ast.List, ast.Dict, ast.NamedExpr)):
+            cur = p_
+            continue
+        if isinstance(p_, ast.Subscript) and p_.value is cur:
+            cur = p_
+            continue
+        if isinstance(p_, ast.Call):
+            return p_.func is cur
+        if isinstance(p_, (ast.Assign, ast.AnnAssign)):
+            targets = p_.targets if isinstance(p_, ast.Assign) else [p_.target]
+            return all(isinstance(t, ast.Name) or (isinstance(t, (ast.Tuple, ast.List)) and all(isinstance(x, ast.Name) for x in t.elts)) for t in targets)
+        return False
+    return False
 
 
 def rule_who(ctx: Ctx) -> None:
@@ -586,12 +2859,14 @@ def rule_who(ctx: Ctx) -> None:
             n += 1
             # a private helper called from send only is judged at its call sites in send (send-classification)
             ok = fi.qualname == "TunnelEndpoint.send" or (fi.qualname == f"TunnelEndpoint.{fi.name}" and fi.name in helpers)
+            if not ok:
+                ok = _raw_site_judged_in_send(ctx, te, fi, c)
             ctx.check(ok, "raw-send", fi, c, "raw endpoint.send only in TunnelEndpoint.send",
                       "the wrapped endpoint's send is called outside the anonymity switch")
         # handing out the raw endpoint's bound send method
         for a in walk_no_nested(fi.node):
             if isinstance(a, ast.Attribute) and chain(a) == "self.endpoint.send" and not isinstance(getattr(a, "_parent", None), ast.Call):
-                ctx.check(False, "raw-send", fi, a, "no escaping reference to the raw send", "raw send method escapes")
+                n += ctx.check(_kept_local(ctx, a, fi), "raw-send", fi, a, "no escaping reference to the raw send", "raw send method escapes")
     ctx.floor("raw-send", n, 1)
     # nobody reaches under the wrapper
     for m in repo.modules.values():
@@ -602,6 +2877,27 @@ def rule_who(ctx: Ctx) -> None:
                 ok = fi is not None and fi.cls is te
                 ctx.check(ok, "raw-send", fi or m.relpath, node, "no `.endpoint.endpoint` outside TunnelEndpoint",
                           "code reaches under the TunnelEndpoint wrapper to the raw endpoint")
+    # ... nor by the dynamic spelling of the same read: getattr(<an endpoint>, "endpoint"[, default]) hands out the wrapped raw
+    # endpoint of a TunnelEndpoint; only a pure type test of the result (isinstance / type) is harmless
+    for m in repo.modules.values():
+        for node in ast.walk(m.tree):
+            if not (isinstance(node, ast.Call) and chain(node.func) == "getattr" and len(node.args) >= 2 and const_value(node.args[1]) == "endpoint"):
+                continue
+            fi = repo.function_of(node)
+            base = node.args[0]
+            bch = (_achain(fi, base) if fi is not None else chain(base)) or ""
+            inner_getattr = isinstance(strip_cast(base), ast.Call) and chain(strip_cast(base).func) == "getattr" \
+                and len(strip_cast(base).args) >= 2 and const_value(strip_cast(base).args[1]) == "endpoint"
+            if not (bch == "endpoint" or bch.endswith(".endpoint") or inner_getattr):
+                continue
+            if fi is not None and fi.cls is te:
+                continue
+            par = getattr(node, "_parent", None)
+            if isinstance(par, ast.Call) and chain(par.func) in ("isinstance", "type", "issubclass", "hasattr") and par.args and par.args[0] is node:
+                continue
+            ctx.check(False, "raw-send", fi or m.relpath, node, 'no getattr(<endpoint>, "endpoint") outside TunnelEndpoint',
+                      "code reaches under the TunnelEndpoint wrapper to the raw endpoint (getattr spelling of `.endpoint.endpoint`): "
+                      "what is sent through the result bypasses the anonymity switch of TunnelEndpoint.send")
     # __getattr__ style forwarding would also leak the raw send
     ctx.check("__getattr__" not in te.methods and "__getattribute__" not in te.methods, "raw-send", te.where, "__getattr__",
               "TunnelEndpoint has no attribute forwarding", "TunnelEndpoint forwards unknown attributes to the raw endpoint")
@@ -622,7 +2918,8 @@ def _delivery_filter(ctx: Ctx, nl) -> None:
     """
     cfgn = ctx.cfg(nl)
     from_tunnel = nl.params()[2]
-    dl = ctx.anchor([c for c in calls(nl) if call_name(c) == "_deliver_later"], "_deliver_later in TunnelEndpoint.notify_listeners")
+    dl = [c for c in calls(nl) if call_name(c) == "_deliver_later"]
+    judged = {}
 
     def is_anon(e, listener) -> bool:
         e = _unbool(resolve(nl, e))
@@ -699,9 +2996,20 @@ def _delivery_filter(ctx: Ctx, nl) -> None:
                             ok = False
                     cur = cur + _edge_facts(nl, node, lab)
             ok = ok and seen_site
-        ctx.check(ok, "delivery-filter", nl, c, "listener receives the packet only if listener.anonymize == from_tunnel",
-                  "tunnel-delivered packets reach plain overlays or socket packets reach anonymized overlays",
-                  [str(f) for f in facts])
+        judged[id(c)] = (nl, c, ok, [str(f) for f in facts])
+    if not judged or not all(j[2] for j in judged.values()) or _FORCE_PATHS:
+        # the filter may live in a helper / generator / closure / filter(): decide on symbolic paths
+        try:
+            for k, (hf, c, ok) in _deliver_paths(ctx, ctx.repo.cls("TunnelEndpoint", EP), nl).items():
+                if ok or k not in judged:
+                    judged[k] = (hf, c, ok, [])
+        except _Und as u:
+            if not judged:
+                raise AnalysisError(f"undecided: _deliver_later reached from TunnelEndpoint.notify_listeners: {u}") from None
+    ctx.anchor(list(judged), "_deliver_later in TunnelEndpoint.notify_listeners")
+    for hf, c, ok, shown in judged.values():
+        ctx.check(ok, "delivery-filter", hf, c, "listener receives the packet only if listener.anonymize == from_tunnel",
+                  "tunnel-delivered packets reach plain overlays or socket packets reach anonymized overlays", shown)
 
 
 def _table_put(fi, c: ast.Call):
@@ -717,33 +3025,136 @@ def _table_put(fi, c: ast.Call):
     return None
 
 
-def rule_opt_in(ctx: Ctx) -> None:  # noqa: C901, PLR0912
+def _reaches_call(repo, fi, name: str, depth: int = 4, seen=None) -> bool:
+    """does fi (or a method of its class that it calls on self, transitively) contain a call named `name`"""
+    seen = set() if seen is None else seen
+    if id(fi.node) in seen or depth < 0:
+        return False
+    seen.add(id(fi.node))
+    for c in calls(fi, nested=True):
+        if call_name(c) == name:
+            return True
+        if isinstance(c.func, ast.Attribute) and isinstance(c.func.value, ast.Name) and c.func.value.id in ("self", "cls") and fi.cls is not None:
+            m = fi.cls.lookup(c.func.attr)
+            if m is not None and _reaches_call(repo, m, name, depth - 1, seen):
+                return True
+    return False
+
+
+def _is_getter(fi) -> bool:
+    """a method that only computes a value: no stores into objects, no calls except type tests and other pure builtins"""
+    for n in ast.walk(fi.node):
+        if isinstance(n, ast.Call) and (chain(n.func) or "") not in _PURE_BUILTINS | {"cast", "bool", "getattr", "next", "iter", "list", "tuple"}:
+            return False
+        if isinstance(n, (ast.Attribute, ast.Subscript)) and isinstance(n.ctx, (ast.Store, ast.Del)):
+            return False
+        if isinstance(n, (ast.Yield, ast.YieldFrom, ast.Await, ast.Global, ast.Nonlocal)):
+            return False
+    return True
+
+
+class _OptInPaths(_Interp):
+    """An overlay constructor on symbolic paths: every set_anonymity call it makes (directly, in helpers, in closures)."""
+
+    def __init__(self, ctx, fi) -> None:
+        super().__init__(ctx, fi)
+        self.hits = []
+
+    def follow(self, fi) -> bool:
+        if fi.cls is None or fi.node is self.top.node:
+            return False
+        return _reaches_call(self.repo, fi, "set_anonymity") or _is_getter(fi)
+
+    def on_call(self, c, fv, args, kwargs, st):
+        if fv[0] == "attr" and fv[2] == "set_anonymity":
+            a0, a1 = _call_arg(args, kwargs, 0, "prefix"), _call_arg(args, kwargs, 1, "enable")
+            self.hits.append({"node": c, "fi": st.frames[-1].fi, "recv": _strip(fv[1]), "a0": _strip(a0) if a0 else None,
+                              "a1": _strip(a1) if a1 else None, "prefix": _strip(self.read_attr(_SELF, "_prefix", st)),
+                              "anon": _strip(self.read_attr(_SELF, "anonymize", st)),
+                              "facts": tuple((_strip(k), p) for k, p in st.facts.items())})
+            st.epoch += 1
+            return [(_NONE, st)]
+        return None
+
+
+def _opt_in_paths(ctx, top, want: bool) -> dict:
+    """
+    {id(call): (function, call, ok)} for every set_anonymity call reached from the constructor `top` on symbolic paths.  ok: the call
+    is made on self.endpoint for self._prefix with the constant `want`, and (want=True) only on paths where settings.anonymize /
+    self.anonymize was tested truthy.
+    """
+    it = _OptInPaths(ctx, top)
+    it.start()
+    ps = top.params()
+    asked = set()
+    if len(ps) > 1:
+        asked = {("attr", ("param", ps[1]), "anonymize")} | \
+            {("pcall", ("global", "getattr"), (("param", ps[1]), ("const", "anonymize"), d)) for d in (("const", False), ("const", None))}
+    out = {}
+    for h in it.hits:
+        ok = h["recv"] == _T_SOCKET and h["a0"] is not None and h["a0"] == h["prefix"] and h["a1"] is not None \
+            and h["a1"][0] == "const" and h["a1"][1] is want
+        if ok and want:
+            ok = any(p and (k in asked or k == h["anon"]) for k, p in h["facts"])
+        hf = h["fi"]
+        if ok and hf.node is not top.node and enclosing_function(hf.node) is None:
+            # the call sits in a helper: it is judged for the arguments of this constructor only, so nobody else may call the helper
+            for _, cf, _ in ctx.repo.callers_of_name(hf.name):
+                if cf is None or id(cf.node) not in it.entered:
+                    raise _Und(f"{hf.qualname} (calls set_anonymity) is also called from {cf.qualname if cf else 'module level'}")
+        prev = out.get(id(h["node"]))
+        out[id(h["node"])] = (hf if not isinstance(hf, _LambdaInfo) else top, h["node"], ok and (prev is None or prev[2]))
+    return out
+
+
+def rule_opt_in(ctx: Ctx) -> None:  # noqa: C901, PLR0912, PLR0915
     repo = ctx.repo
     init = repo.method("Community", "__init__", "ipv8/community.py")
     cfg = ctx.cfg(init)
-    sa_calls = ctx.anchor([c for c in calls(init) if call_name(c) == "set_anonymity" and isinstance(c.func, ast.Attribute)
-                           and _achain(init, c.func.value) == "self.endpoint"], "set_anonymity in Community.__init__")
+    sa_calls = [c for c in calls(init) if call_name(c) == "set_anonymity" and isinstance(c.func, ast.Attribute)
+                and _achain(init, c.func.value) == "self.endpoint"]
+    judged = {}         # id(call) -> (function, call, ok): the opt-in sites
     for c in sa_calls:
         facts = _expand(init, facts_at(cfg, c))
         a0, a1 = arg(c, 0, "prefix"), arg(c, 1, "enable")
         ok = _achain(init, a0) == "self._prefix" and _is_true(resolve(init, a1)) \
             and any(f.op == "truthy" and f.pos and _achain(init, _unbool(f.left)) in ("settings.anonymize", "self.anonymize") for f in facts)
-        ctx.check(ok, "opt-in", init, c, "Community opts in with set_anonymity(self._prefix, True) under settings.anonymize",
+        judged[id(c)] = (init, c, ok)
+    if not judged or not all(j[2] for j in judged.values()) or _FORCE_PATHS:
+        # not (only) the reviewed shape: the call may sit behind a local alias of the endpoint, in a helper or a closure
+        try:
+            for k, j in _opt_in_paths(ctx, init, True).items():
+                if j[2] or k not in judged:
+                    judged[k] = j
+        except _Und as u:
+            if not judged:
+                raise AnalysisError(f"undecided: set_anonymity reached from Community.__init__: {u}") from None
+    ctx.anchor(list(judged), "set_anonymity in Community.__init__")
+    for hf, c, ok in judged.values():
+        ctx.check(ok, "opt-in", hf, c, "Community opts in with set_anonymity(self._prefix, True) under settings.anonymize",
                   "an overlay that asked for anonymity is not registered with the tunnel endpoint for its own prefix")
     # every path with settings.anonymize and a TunnelEndpoint reaches the call
-    ctx.check(any(f for f in sa_calls), "opt-in", init, init.node, "opt-in call present")
+    ctx.check(any(j[2] for j in judged.values()), "opt-in", init, init.node, "opt-in call present")
     # all set_anonymity(.., False) sites
     n = 0
+    off_paths = None
     for m, fi, c in repo.callers_of_name("set_anonymity"):
         n += 1
         a0, a1 = arg(c, 0, "prefix"), arg(c, 1, "enable")
-        if fi is not None and fi.qualname == "Community.__init__" and c in sa_calls:
+        if id(c) in judged:
             continue
         if fi is not None and fi.module.relpath.startswith("ipv8/REST/"):
             # REST isolation endpoint is an operator action, listed as assumption
             continue
         ok = fi is not None and fi.qualname == "TunnelCommunity.__init__" and _achain(fi, a0) == "self._prefix" \
             and _is_false(resolve(fi, a1))
+        if not ok or _FORCE_PATHS:
+            if off_paths is None:
+                try:
+                    off_paths = _opt_in_paths(ctx, repo.method("TunnelCommunity", "__init__", "ipv8/messaging/anonymization/community.py"), False)
+                except (_Und, AnalysisError, KeyError):
+                    off_paths = {}
+            ok = ok or (id(c) in off_paths and off_paths[id(c)][2])
         ctx.check(ok, "opt-in", fi or m.relpath, c, "only the tunnel overlay disables anonymity, for its own prefix",
                   "anonymity is switched off for a prefix other than the tunnel overlay's own")
     ctx.floor("opt-in", n, 1)
@@ -760,16 +3171,23 @@ def rule_opt_in(ctx: Ctx) -> None:  # noqa: C901, PLR0912
                               "the anonymity table of the tunnel endpoint is overwritten from outside set_anonymity: anonymity requests registered earlier are lost and those overlays send raw")
     # settings dict written only by set_anonymity
     te = repo.cls("TunnelEndpoint", EP)
+
+    def part_of_set_anonymity(fi) -> bool:
+        """a private helper that only set_anonymity reaches, and set_anonymity (symbolically executed through it) records exactly the request"""
+        if fi.name.startswith("__") or not fi.name.startswith("_"):
+            return False
+        ok_sym, it = _table_symbolic(ctx, te)
+        return bool(ok_sym) and it is not None and id(fi.node) in it.entered and _referenced_only_from(ctx, te, fi, it.entered)
     for fi in te.methods.values():
         for st, t in stores(fi, ["self.settings[]", "self.settings"]):
-            ok = fi.name in ("set_anonymity", "__init__")
+            ok = fi.name in ("set_anonymity", "__init__") or part_of_set_anonymity(fi)
             ctx.check(ok, "opt-in", fi, st, "anonymity table written only by set_anonymity", "anonymity table rewritten elsewhere")
         for c in calls(fi):
             ch = chain(c.func) or ""
             if ch.startswith("self.settings.") and call_name(c) in ("pop", "clear", "update", "setdefault", "popitem", "__setitem__", "__delitem__"):
                 if fi.name == "set_anonymity" and _table_put(fi, c) is not None:
                     continue        # judged below: the one recording store of set_anonymity
-                ctx.check(False, "opt-in", fi, c, "no other mutation of the anonymity table", "anonymity table mutated outside set_anonymity")
+                ctx.check(part_of_set_anonymity(fi), "opt-in", fi, c, "no other mutation of the anonymity table", "anonymity table mutated outside set_anonymity")
     # set_anonymity records the requested value under the prefix on every path, and does nothing else to the table
     sa = te.methods["set_anonymity"]
     ps = sa.params()
@@ -794,12 +3212,46 @@ def rule_opt_in(ctx: Ctx) -> None:  # noqa: C901, PLR0912
     nodes = [n for st in good for n in cfgs.nodes_for(st)]
     # no normal completion that skips the store: cutting the store's normal out-edges must disconnect the exit
     ok = bool(good) and others == 0 and cfgs.exit not in cfgs.reach(cut_out_normal=nodes)
+    if not ok or _FORCE_PATHS:
+        # the store may sit behind an alias of the table, in a helper, a loop over a literal ...: decide on symbolic paths
+        ok = _table_symbolic(ctx, te)[0]
     ctx.check(ok, "opt-in", sa, sa.node, "set_anonymity stores enable under the prefix", "set_anonymity does not record the requested switch")
     # delivery filter
     _delivery_filter(ctx, te.methods["notify_listeners"])
 
 
 def rule_exit_flags(ctx: Ctx) -> None:
+    """Circuit.exit_flags describes the LAST hop: by the reviewed shape of the property, or - when that is not recognised - by the values it returns on symbolic paths."""
+    fi = ctx.repo.method("Circuit", "exit_flags", TUNNEL)
+    rec = _Rec(ctx)
+    err = None
+    try:
+        _exit_flags_reviewed(rec)
+    except AnalysisError as e:
+        err = e
+    if err is None and not rec.bad and not _FORCE_PATHS:
+        rec.replay()
+        return
+    try:
+        verdict, detail = _exit_flags_paths(ctx, fi)
+    except _Und as u:
+        verdict, detail = None, str(u)
+    reason = ("Circuit.exit_flags does not describe the last hop: find_circuits(exit_flags=[PEER_FLAG_EXIT_IPV8]) then selects "
+              "circuits whose exit is not known to be IPv8-capable and TunnelEndpoint.send carries anonymized packets over them")
+    if verdict is True:
+        ctx.check(True, "exit-flags", fi, fi.node, "every value Circuit.exit_flags returns is the flags of the last hop, or empty (symbolic paths)")
+        ctx.floor("exit-flags", 1, 1)
+        return
+    if err is None and not _FORCE_PATHS:
+        rec.replay()
+        return
+    if verdict is False:
+        ctx.check(False, "exit-flags", fi, fi.node, "Circuit.exit_flags reads the flags of the last hop (hops[-1])", f"{reason} (returns `{detail}`)")
+        return
+    raise err if err is not None else AnalysisError(f"undecided: Circuit.exit_flags: {detail}")
+
+
+def _exit_flags_reviewed(ctx) -> None:
     """
     find_circuits(exit_flags=[PEER_FLAG_EXIT_IPV8]) compares the requested flags with Circuit.exit_flags.  The traffic leaves the
     circuit at its LAST hop, so "ending in an IPv8-capable exit" holds only if Circuit.exit_flags reads the flags of the last
@@ -853,10 +3305,47 @@ def rule_exit_flags(ctx: Ctx) -> None:
     ctx.floor("exit-flags", n, 1)
 
 
+def rule_circuit_filter(ctx: Ctx) -> None:
+    """
+    TunnelEndpoint.send relies on find_circuits(exit_flags=[PEER_FLAG_EXIT_IPV8], hops=self.hops) to return only circuits whose
+    exit advertises every requested flag and that have the requested length.  Every circuit find_circuits puts into its result
+    must therefore lie on a path where `exit_flags is None` or `set(exit_flags) <= set(c.exit_flags)` was established (and
+    `hops is None` or `hops == c.goal_hops`): a circuit admitted by any other test (unknown flags, first hop, ...) is not known to
+    end in an IPv8-capable exit.
+    """
+    repo = ctx.repo
+    tc = repo.cls("TunnelCommunity", "ipv8/messaging/anonymization/community.py")
+    impls = repo.dispatch(tc, "find_circuits")
+    ctx.anchor(impls, "TunnelCommunity.find_circuits")
+    n = 0
+    for fi in impls:
+        try:
+            judged = _circuit_filter(ctx, fi)
+        except _Und as u:
+            raise AnalysisError(f"undecided: {fi.qualname}: {u}") from None
+        if not judged:
+            raise AnalysisError(f"undecided: {fi.qualname}: no circuit is seen to be put into the result")
+        und = [j for j in judged if j[2] is None or j[3] is None]
+        for node, hf, f_ok, h_ok in judged:
+            if f_ok is None or h_ok is None:
+                continue
+            n += 1
+            where = hf if not isinstance(hf, _LambdaInfo) else fi
+            ctx.check(f_ok, "circuit-filter", where, node, "find_circuits returns a circuit only if exit_flags is None or set(exit_flags) <= set(c.exit_flags)",
+                      "find_circuits admits a circuit without establishing that its exit has every requested flag: "
+                      "TunnelEndpoint.send(exit_flags=[PEER_FLAG_EXIT_IPV8]) then tunnels anonymized packets to exits not known to be IPv8-capable")
+            ctx.check(h_ok, "circuit-filter", where, node, "find_circuits returns a circuit only if hops is None or hops == c.goal_hops",
+                      "find_circuits admits a circuit of another length than requested: anonymized packets travel over a circuit "
+                      "that does not have the configured number of hops")
+        if und and not ctx.findings:
+            raise AnalysisError(f"undecided: {fi.qualname}: a test on exit_flags / hops is not understood")
+    ctx.floor("circuit-filter", n, 1)
+
+
 def run(ctx: Ctx) -> None:
     # "analysis does not apply" (exit 2) in one rule must not hide a violation that another rule can still report
     pending = None
-    for rule in (rule_send, rule_queue, rule_who, rule_opt_in, rule_exit_flags):
+    for rule in (rule_send, rule_queue, rule_who, rule_opt_in, rule_exit_flags, rule_circuit_filter):
         try:
             rule(ctx)
         except AnalysisError as e:
@@ -916,6 +3405,14 @@ WITNESSES = [
     {"name": "delivery filter inverted for plain overlays", "file": EP, "rule": "delivery-filter",
      "old": "            if getattr(listener, \"anonymize\", False) != from_tunnel:\n                continue\n",
      "new": "            if getattr(listener, \"anonymize\", False) and not from_tunnel:\n                continue\n"},
+    {"name": "puncture leaves through the unwrapped endpoint", "file": "ipv8/community.py", "rule": "raw-send",
+     "old": "                                      new_style)\n        self.endpoint.send(target, packet)",
+     "new": "                                      new_style)\n        getattr(self.endpoint, \"endpoint\", self.endpoint).send(target, packet)"},
+    {"name": "circuits with unknown exit flags match any request", "file": "ipv8/messaging/anonymization/community.py", "rule": "circuit-filter",
+     "old": "and (exit_flags is None or set(exit_flags) <= set(c.exit_flags))",
+     "new": "and (exit_flags is None or not c.exit_flags or set(exit_flags) <= set(c.exit_flags))"},
+    {"name": "longer circuits match the requested hop count", "file": "ipv8/messaging/anonymization/community.py", "rule": "circuit-filter",
+     "old": "and (hops is None or hops == c.goal_hops)]", "new": "and (hops is None or hops <= c.goal_hops)]"},
     {"name": "exit flags of the first hop", "file": TUNNEL, "rule": "exit-flags",
      "old": "            return self.hops[-1].flags or []", "new": "            return self.hops[0].flags or []"},
 ]
